@@ -2424,3 +2424,4105 @@ class Fn2(Fn):
             if pn in self.cfg["params"]:
                 env[pn] = self.cfg["params"][pn]
         return self.run(body[1], body[2], env, lambda env2, v: self.final(v, env2), {})
+
+
+# =================================================================================================
+# Glue wave (builder B16; first client: lib/gen/cli_gen.py — duckscript_cli/src/main.rs and linter.rs).  Purely
+# additive: nothing above this line is changed, the classes below extend P2 / Fn2.
+#
+#   lex_q / PQ / parse_fn_q   the `?` operator (postfix, ("try", e)); otherwise the P2 grammar
+#   FnGlue   executor for "glue" functions that decide which callee runs and hand its verdict on:
+#     * the function result is built by the configuration (`result_handler`), so a function can return a model value
+#       of any type (an `option lint_kind`, a `result`, an `action`, a pair ..); a function without a value
+#       (`fn main`) ends in `final_unit`; `exit(<literal>)` ends it through `exit_handler`;
+#     * callees that return a `Result` and are abstracted by the model (library verdicts) are described by `results`:
+#       `match CALL(..) { Ok(x) => A, Err(e) => B }` (either order, `_` for the arm that is not named), `CALL(..)?`
+#       as a statement or as the value of a `let` (Err(e) => return Err(e));
+#     * `match VALUE { Path::Ctor(ref x) => A, .., _ => B }` on a value whose model type is described by `enums`
+#       (also as the value of a `let`: the continuation is copied into the arms);
+#     * `let (a, b, c) = if C { (x, y, z) } else { .. };` — the `if` is pushed outwards (the continuation is copied
+#       into the branches), tuple literals bind their components directly;
+#     * `v[<literal>]` on a Vec the function never mutates (`const_lists`) is bound ONCE by
+#       `match nth_error v i with None => <panic> | Some x => ..` and reused inside that arm — so
+#       `args[1] == "a" || args[1] == "b"` needs no second (unreachable) panic arm and is allowed on the right of `||`
+#       when the same element was already read on every path to it;
+#     * `for x in &list { .. return e; .. }` over a list-typed value (Rs2vCliLib.for_each_r, `lstep`: LCont / LRet);
+#     * `println!` / `print!` only write to stdout: `print_handler` may record a tag (env["%printed"]) and otherwise the
+#       arguments are not looked at (Display of the values cannot change control flow);
+#     * an `if` whose condition is a known literal (`let run = true` bound through a tuple) is decided here.
+#   Everything not understood raises Rs2vError.
+TOK_Q = re.compile(TOK.pattern.replace(r"[{}()\[\];,.:=<>!&+\-*|]", r"[{}()\[\];,.:=<>!&+\-*|?]"), re.S | re.X)
+if TOK_Q.pattern == TOK.pattern:
+    raise Rs2vError("rs2v: the operator class of TOK changed; TOK_Q must be adapted")
+
+
+def lex_q(src, stop_after_item=False):
+    """lex with the `?` operator"""
+    pos, toks = 0, []
+    depth, opened = 0, False
+    while pos < len(src):
+        if stop_after_item and opened and depth == 0:
+            break
+        m = TOK_Q.match(src, pos)
+        if not m:
+            raise Rs2vError("cannot tokenise at: %r" % src[pos:pos + 30])
+        pos = m.end()
+        k = m.lastgroup
+        if k == "ws":
+            continue
+        t = m.group(k)
+        if k == "char":
+            toks.append(("char", unescape(t[1:-1])))
+        elif k == "str":
+            toks.append(("str", unescape(t[1:-1])))
+        elif k == "num":
+            toks.append(("num", int(t)))
+        elif k == "id":
+            toks.append(("id", t))
+        else:
+            toks.append(("op", t))
+            if t == "{":
+                depth += 1
+                opened = True
+            elif t == "}":
+                depth -= 1
+    toks.append(("eof", None))
+    return toks
+
+
+class PQ(P2):
+    def postfix(self, e):
+        while True:
+            e = super().postfix(e)
+            if self.opt("op", "?"):
+                e = ("try", e)
+                continue
+            return e
+
+
+def parse_fn_q(src, name):
+    """-> (params, body) of the free function `name`, PQ grammar; exactly one definition must exist"""
+    ms = list(re.finditer(r"(?:pub(?:\([a-z]+\))?\s+)?fn\s+%s\s*\(" % re.escape(name), src))
+    if len(ms) != 1:
+        raise Rs2vError("fn %s: %d definitions" % (name, len(ms)))
+    p = PQ(lex_q(src[ms[0].start():], stop_after_item=True))
+    n, params, body = p.fn()
+    return params, body
+
+
+class FnGlue(Fn2):
+    """cfg keys in addition to Fn2's (all optional):
+      result_handler  f(fn, e, env, ctx) -> coq term of the function's RESULT for the Rust expression e (None: not handled)
+      final_unit      f(fn, env) -> term                  result of a function that ends without a value
+      exit_handler    f(fn, status literal, env) -> term  `exit(<literal>);`
+      print_handler   f(fn, macro name, args, env) -> env println!/print!
+      let_handlers    {local: f(fn, e, env) -> (type, term)}     a `let` whose right-hand side the configuration models
+      opaque_macros   macros whose value is never inspected (include_str): the local is bound as unavailable
+      calls           {rust path: {"call": f(fn, args, env) -> term, "ret": type}}    pure crate-local callees
+      results         {rust path: {"call": f(fn, args, env) -> term,
+                                   "ok": f(fn, rust var or None) -> (coq pattern, (type, value) or None),
+                                   "err": f(fn) -> (coq pattern, payload term), "infallible": bool}}
+      enums           {model type: {"ctors": {rust ctor path: f(fn, [rust vars]) -> (coq pattern, {rust var: (type, value)})},
+                                    "all": number of constructors of the Coq type}}
+      const_lists     names of Vec values the function never mutates
+      list_loop       {"item": f(fn, coq var) -> (type, value), "item_type": coq type, "result_type": coq type}
+      res             {"err": fmt of the function result for an error payload, "panic": term}, step {"ret": fmt}
+    """
+
+    # ---- whole function
+    def function(self, params, body):
+        env = {}
+        for pn, _ in params:
+            if pn in self.cfg["params"]:
+                env[pn] = self.cfg["params"][pn]
+        env["%printed"] = ("meta", ())
+        mutated = {a.split(".")[0] for a in self.assigned_names(body)}
+        bad = sorted(mutated & set(self.cfg.get("const_lists", ())))
+        if bad:
+            raise Rs2vError("%s is mutated, but configured as never mutated" % ", ".join(bad))
+        return self.run(body[1], body[2], env, lambda env2, v: self.final(v, env2), {})
+
+    def final(self, v, env):
+        if v is None:
+            f = self.cfg.get("final_unit")
+            if f:
+                return f(self, env)
+            raise Rs2vError("function ends without a value")
+        return self.result(v, env, {})
+
+    def result(self, e, env, ctx):
+        h = self.cfg.get("result_handler")
+        if not h:
+            return super().result(e, env, ctx)
+
+        def fin(e2, env2):
+            v = h(self, e2, env2, ctx)
+            if v is None:
+                raise Rs2vError("result value %r" % (e2,))
+            return (self.cfg["step"]["ret"] % v) if ctx.get("loop") else v
+        return self.hoist(e, env, ctx, fin)
+
+    def fail_term(self, payload, ctx):
+        v = self.cfg["res"]["err"] % payload
+        return (self.cfg["step"]["ret"] % v) if ctx.get("loop") else v
+
+    # ---- callees
+    def callee(self, table, e):
+        if e[0] == "call" and e[1][0] == "path":
+            return self.cfg.get(table, {}).get("::".join(e[1][1]))
+        return None
+
+    def type_of(self, e, env):
+        c = self.callee("calls", e)
+        if c:
+            return c["ret"]
+        if e[0] == "bool":
+            return Ty.BOOL
+        return super().type_of(e, env)
+
+    def ex(self, e, env):
+        c = self.callee("calls", e)
+        if c:
+            return c["call"](self, e[2], env)
+        if e[0] == "try":
+            raise Rs2vError("`?` in a position where it cannot be hoisted")
+        return super().ex(e, env)
+
+    def try_(self, call, env, k, ctx):
+        """CALL(..)?  — k(env, (type, value) of the Ok payload or None)"""
+        r = self.callee("results", call)
+        if r is None:
+            raise Rs2vError("`?` on %r" % (call,))
+        if r.get("infallible"):
+            r["call"](self, call[2], env)           # the arguments are still checked
+            return k(env, r["ok"](self, None)[1])
+        term = r["call"](self, call[2], env)
+        v = self.newvar("r")
+        okpat, oktv = r["ok"](self, v)
+        errpat, payload = r["err"](self)
+        return "match %s with\n| %s =>\n%s\n| %s =>\n%s\nend" % (term, okpat, k(env, oktv), errpat,
+                                                                  self.fail_value(payload, env, ctx))
+
+    def fail_value(self, payload, env, ctx):
+        """the function's result for `return Err(e)` where e is the error a callee returned (the `?` operator)"""
+        h = self.cfg.get("result_handler")
+        if h:
+            env2 = dict(env)
+            env2["%err"] = ("error", payload)
+            v = h(self, ("call", ("path", ["Err"]), [("path", ["%err"])]), env2, ctx)
+            if v is not None:
+                return (self.cfg["step"]["ret"] % v) if ctx.get("loop") else v
+        return self.fail_term(payload, ctx)
+
+    # ---- statements
+    def stmt(self, s, env, cont, ctx):
+        if s[0] == "break" and ctx.get("list_loop"):
+            raise Rs2vError("break inside a loop over a list")
+        return super().stmt(s, env, cont, ctx)
+
+    def bind(self, name, e, env, cont, ctx):
+        lh = self.cfg.get("let_handlers", {}).get(name)
+        if lh:
+            env2 = dict(env)
+            env2[name] = lh(self, e, env)
+            return cont(env2)
+        if e[0] == "macro" and e[1] in self.cfg.get("opaque_macros", ()):
+            env2 = dict(env)
+            env2[name] = ("opaque", POISON)
+            return cont(env2)
+        if e[0] == "try":
+            def k(env2, tv):
+                env3 = dict(env2)
+                env3[name] = tv if tv is not None else ("opaque", POISON)
+                return cont(env3)
+            return self.try_(e[1], env, k, ctx)
+        return super().bind(name, e, env, cont, ctx)
+
+    def keep3(self, env3, env, names):
+        return {x: env3[x] for x in env3 if x in env or x in names or x.startswith("%")}
+
+    def bind_tuple(self, names, e, env, cont, ctx):
+        while e[0] == "block" and not e[1] and e[2] is not None:
+            e = e[2]
+        if e[0] == "if":
+            if e[3] is None:
+                raise Rs2vError("let (..) = if .. without else")
+
+            def kk(env2, v=None):
+                if v is None:
+                    raise Rs2vError("let (..) = if ..: a branch without a value")
+                return self.bind_tuple(names, v, env2, lambda env3, _v=None: cont(self.keep3(env3, env, names)), ctx)
+            return self.if_(e, env, kk, ctx)
+        if e[0] == "tuple" and len(e[1]) == len(names):
+            def k2(items, env2):
+                env3 = dict(env2)
+                for n, x in zip(names, items):
+                    if n != "_":
+                        env3[n] = self.value(x, env2)
+                return cont(env3)
+            return self.hoist(e[1], env, ctx, k2, hint=names[0] if names[0] != "_" else "x")
+        return super().bind_tuple(names, e, env, cont, ctx)
+
+    def effect(self, e, env, cont, ctx):
+        k = e[0]
+        if k == "macro":
+            ph = self.cfg.get("print_handler")
+            if e[1] in ("println", "print") and ph:
+                return cont(ph(self, e[1], e[2], env))
+            raise Rs2vError("macro %s! in statement position" % e[1])
+        if k == "try":
+            return self.try_(e[1], env, lambda env2, _tv: cont(env2), ctx)
+        if k == "call" and e[1] == ("path", ["exit"]) and self.cfg.get("exit_handler"):
+            if len(e[2]) != 1 or e[2][0][0] != "num":
+                raise Rs2vError("exit(..) with something else than a literal")
+            return self.cfg["exit_handler"](self, e[2][0][1], env)
+        if k == "tuple" and not e[1]:
+            return cont(env)
+        return super().effect(e, env, cont, ctx)
+
+    def if_(self, e, env, k, ctx):
+        c, a, b = e[1], e[2], e[3]
+        if self.opt_test(c, env):
+            return super().if_(e, env, k, ctx)
+
+        def go(c2, env2):
+            t = self.ex(c2, env2)
+            if t == "true":
+                return self.runblk(a, env2, k, ctx)
+            if t == "false":
+                return self.runblk(b, env2, k, ctx)
+            return "if %s then\n%s\nelse\n%s" % (t, self.runblk(a, env2, k, ctx), self.runblk(b, env2, k, ctx))
+        return self.hoist(c, env, ctx, go, hint="x")
+
+    # ---- partial sub-expressions, with reuse of elements of never-mutated vectors
+    def hoist(self, e, env, ctx, k, hint="x"):
+        pend, local = [], {}
+        consts = self.cfg.get("const_lists", ())
+
+        def ckey(n):
+            if n[1][0] == "path" and len(n[1][1]) == 1 and n[1][1][0] in consts and n[2][0] == "num":
+                return "%%ix:%s:%d" % (n[1][1][0], n[2][1])
+            return None
+
+        def walk(n, guarded):
+            if isinstance(n, list):
+                return [walk(x, guarded) for x in n]
+            if not isinstance(n, tuple) or not n:
+                return n
+            if n[0] in ("if", "iflet", "match", "block", "char", "str", "num", "bool", "path"):
+                return n
+            if n[0] == "index":
+                key = ckey(n)
+                if key is not None and key in env:
+                    return ("path", [key])
+                if key is not None and key in local:
+                    return ("path", [local[key]])
+                if guarded:
+                    raise Rs2vError("v[i] on the right of a short-circuit operator")
+                sub = ("index", walk(n[1], guarded), walk(n[2], guarded))
+                self._h += 1
+                tmp = "%%h%d" % self._h
+                pend.append((tmp, "index", sub, key))
+                if key is not None:
+                    local[key] = tmp
+                return ("path", [tmp])
+            if n[0] == "mcall" and n[2] == "unwrap" and not n[3]:
+                recv = walk(n[1], guarded)
+                if guarded:
+                    raise Rs2vError("unwrap on the right of a short-circuit operator")
+                self._h += 1
+                tmp = "%%h%d" % self._h
+                pend.append((tmp, "unwrap", recv, None))
+                return ("path", [tmp])
+            if n[0] == "bin" and n[1] in ("&&", "||"):
+                return ("bin", n[1], walk(n[2], guarded), walk(n[3], True))
+            if n[0] == "struct":
+                return ("struct", n[1], [(f, walk(x, guarded)) for f, x in n[2]])
+            return tuple(walk(x, guarded) if isinstance(x, (tuple, list)) else x for x in n)
+
+        e2 = walk(e, False)
+
+        def bindall(i, env_):
+            if i == len(pend):
+                return k(e2, env_)
+            tmp, kind, sub, key = pend[i]
+            env2 = dict(env_)
+            if kind == "index":
+                et = self.type_of(sub, env_)
+                v = self.newvar(hint)
+                env2[tmp] = (et, v)
+                if key is not None:
+                    env2[key] = (et, v)
+                return "match nth_error %s %s with\n| None => %s\n| Some %s =>\n%s\nend" % (
+                    self.ex(sub[1], env_), self.num(sub[2], Ty.NAT, env_), self.panic_term(ctx), v, bindall(i + 1, env2))
+            t = self.type_of(sub, env_)
+            if not (isinstance(t, tuple) and t[0] == "option"):
+                raise Rs2vError("unwrap on %s" % (t,))
+            term = self.ex(sub, env_)
+            inner = some_inner(term)
+            if inner is not None:
+                env2[tmp] = (t[1], inner)
+                return bindall(i + 1, env2)
+            v = self.newvar(hint)
+            env2[tmp] = (t[1], v)
+            return "match %s with\n| None => %s\n| Some %s =>\n%s\nend" % (term, self.panic_term(ctx), v, bindall(i + 1, env2))
+        return bindall(0, env)
+
+    def panic_term(self, ctx):
+        p = self.cfg["res"].get("panic")
+        if not p:
+            raise Rs2vError("a panic is not expressible here")
+        return (self.cfg["step"]["ret"] % p) if ctx.get("loop") else p
+
+    # ---- match
+    def match_(self, e, env, k, ctx):
+        s = e[1]
+        while s[0] in ("ref", "refmut"):
+            s = s[1]
+        r = self.callee("results", s)
+        if r is not None:
+            return self.match_result(s, r, e[2], env, k, ctx)
+        try:
+            t = self.type_of(s, env)
+        except Rs2vError:
+            t = None
+        en = self.cfg.get("enums", {}).get(t) if isinstance(t, str) else None
+        if en is not None:
+            return self.match_enum(s, en, e[2], env, k, ctx)
+        return super().match_(e, env, k, ctx)
+
+    def split_arms(self, arms):
+        named, wild = [], None
+        for i, (pat, body) in enumerate(arms):
+            if pat[0] == "wild":
+                if i != len(arms) - 1:
+                    raise Rs2vError("`_` arm that is not the last one")
+                wild = body
+            elif pat[0] == "ctor":
+                name = "::".join(pat[1])
+                if any(name == n for n, _s, _b in named):
+                    raise Rs2vError("two arms for %s" % name)
+                named.append((name, pat[2], body))
+            else:
+                raise Rs2vError("match pattern %r" % (pat,))
+        return named, wild
+
+    def match_result(self, call, r, arms, env, k, ctx):
+        named, wild = self.split_arms(arms)
+        out = ["match %s with" % r["call"](self, call[2], env)]
+        for name, subs, body in named:
+            if name not in ("Ok", "Err") or len(subs) != 1:
+                raise Rs2vError("arm %s(..) on a Result" % name)
+            env2 = dict(env)
+            if name == "Ok":
+                v = self.newvar(subs[0] or "r")
+                pat, tv = r["ok"](self, v)
+                if subs[0]:
+                    if tv is None:
+                        raise Rs2vError("the Ok payload of this callee has no model value")
+                    env2[subs[0]] = tv
+            else:
+                pat, payload = r["err"](self)
+                if subs[0]:
+                    env2[subs[0]] = ("error", payload)
+            out += ["| %s =>" % pat, self.arm(body, env2, k, ctx)]
+        if wild is not None:
+            if len(named) >= 2:
+                raise Rs2vError("`_` arm after Ok and Err")
+            out += ["| _ =>", self.arm(wild, env, k, ctx)]
+        elif len(named) != 2:
+            raise Rs2vError("match on a Result needs Ok and Err (or `_`)")
+        out.append("end")
+        return "\n".join(out)
+
+    def match_enum(self, s, en, arms, env, k, ctx):
+        named, wild = self.split_arms(arms)
+        out = ["match %s with" % self.ex(s, env)]
+        for name, subs, body in named:
+            c = en["ctors"].get(name)
+            if not c:
+                raise Rs2vError("constructor %s has no model counterpart" % name)
+            pat, binds = c(self, subs)
+            env2 = dict(env)
+            env2.update(binds)
+            out += ["| %s =>" % pat, self.arm(body, env2, k, ctx)]
+        if wild is not None:
+            out += ["| _ =>", self.arm(wild, env, k, ctx)]
+        elif len(named) != en["all"]:
+            raise Rs2vError("match without `_` that does not name every constructor")
+        out.append("end")
+        return "\n".join(out)
+
+    def iflet2(self, e, env, k, ctx):
+        """`if let Ctor(x) = CALL / VALUE { A } [else { B }]` on a Result callee or a configured enum is the match with a `_` arm"""
+        pat, scrut, blk, els = e[1], e[2], e[3], e[4]
+        s = scrut
+        while s[0] in ("ref", "refmut"):
+            s = s[1]
+        arms = [(pat, blk), (("wild",), els if els is not None else ("block", [], None))]
+        if pat[0] == "ctor":
+            r = self.callee("results", s)
+            if r is not None:
+                return self.match_result(s, r, arms, env, k, ctx)
+            try:
+                t = self.type_of(s, env)
+            except Rs2vError:
+                t = None
+            en = self.cfg.get("enums", {}).get(t) if isinstance(t, str) else None
+            if en is not None:
+                return self.match_enum(s, en, arms, env, k, ctx)
+        return super().iflet2(e, env, k, ctx)
+
+    # ---- for x in &list
+    def loop2(self, s, env, cont, ctx):
+        if s[0] == "for" and self.cfg.get("list_loop"):
+            it = s[2]
+            while it[0] in ("ref", "refmut"):
+                it = it[1]
+            if it[0] == "mcall" and it[2] == "iter" and not it[3]:
+                it = it[1]
+            lv = self.lvalue(it)
+            if lv is not None and self.has(env, lv):
+                t, term = self.get(env, lv)
+                if isinstance(t, tuple) and t[0] == "list" and not isinstance(term, dict):
+                    return self.list_loop(s[1], lv, s[3], env, cont, ctx)
+        return super().loop2(s, env, cont, ctx)
+
+    def list_loop(self, pat, lv, body, env, cont, ctx):
+        if ctx.get("loop"):
+            raise Rs2vError("nested loop")
+        if self.loops:
+            raise Rs2vError("more than one loop")
+        lc = self.cfg["list_loop"]
+        for a in sorted(self.assigned_names(body)):
+            if a == "?" or a.split(".")[0] in env:
+                raise Rs2vError("the loop assigns %s (a loop over a list carries no state here)" % a)
+
+        def close(tv):
+            t, term = tv
+            if isinstance(term, dict):
+                return (t, {f: close(x) for f, x in term.items()})
+            return (t, term if (isinstance(term, str) and term != POISON and self.is_closed(term)) else POISON)
+        benv = {n: (tv if n == "%printed" else close(tv)) for n, tv in env.items() if n == "%printed" or not n.startswith("%")}
+        item = self.newvar(pat)
+        benv[pat] = lc["item"](self, item)
+        name = "%s_body" % self.cfg["coq_name"]
+        call = "(%s%s)" % (name, (" " + self.cfg["fn_args"]) if self.cfg.get("fn_args") else "")
+        body_term = self.run(body[1], body[2], benv, lambda env2, v=None: "LCont st", {"loop": True, "list_loop": True})
+        if POISON in body_term:
+            raise Rs2vError("the loop body uses a local of the enclosing function that is not one of its parameters")
+        self.loops.append((name, "Definition %s%s (st : unit) (%s : %s) : lstep unit (%s) :=\n%s.\n" % (
+            name, (" " + self.cfg["fn_params"]) if self.cfg.get("fn_params") else "", item, lc["item_type"],
+            lc["result_type"], body_term)))
+        return "match for_each_r %s %s tt with\n| LRet r => r\n| LCont _ =>\n%s\nend" % (
+            call, self.plain(self.get(env, lv)[1], lv), cont(env))
+
+
+# =================================================================================================
+# State-machine wave, builder B13 (first client: lib/gen/alias_gen.py — AliasCommand::run of duckscript_sdk/src/types/command.rs
+# and clear of types/scope.rs).  Purely additive: nothing above this line is changed; the classes below extend P2 / Fn2.
+#
+#   PState    parser:   closures `|a, _| expr` (arguments of retain & co), methods with a receiver (`fn f(&self, ..)`, the
+#                   MethodP.fn grammar) together with the P2 grammar (`let (a, b) = ..`, struct literals, `&mut e`)
+#   parse_trait_method   `fn name` inside `impl Trait for Type { .. }`
+#   FnState   executor (on top of Fn2: struct-valued parameters with dotted fields, Option refinement, tuple `let`):
+#     * HashMap-typed values (cfg["maps"]) are gmap terms wherever they live (a local, a `&mut` parameter, a field of a
+#       struct parameter): insert -> <[k := v]>, remove -> delete, len -> size, retain(|k, v| e) -> map_retain (fun k v => e);
+#       key-set-typed values (cfg["sets"]: a table of which the model keeps only the KEYS) : insert / remove -> set_add / set_del
+#       spelled by the configuration;
+#     * `for x in <Vec-typed value>` with SEVERAL mutable components: the state tuple is fixed by cfg["loop"]["state"] and
+#       checked against what the body assigns; the body becomes `Definition <coq_name>_loop<i> <fn binders> (st : S) (x : T)
+#       : lstep S R` driven by Rs2vMapLib.for_each_ret (`return e` inside the body = LRet <function result>);
+#     * calls of functions that are NOT translated here but abstracted by the model (a callee that is a Section variable of
+#       the hand model, a random-name generator, a helper working on a part of the state the model does not keep) are given
+#       by cfg["calls"]: per callee a `bind` (let x = CALL), `tuple` (let (a, b) = CALL) and / or `stmt` (CALL;) handler that
+#       CHECKS the actual arguments and returns the new symbolic environment — a call the configuration does not list, or
+#       one with other arguments than the handler expects, is Rs2vError;
+#     * `match e { _ => .. }` (evaluate e for its effect), `Some(x) / _` arms, references that alias a state component
+#       (`let t = part_of(state); t.remove(k)`: type ("alias", dotted name));
+#     * `n.to_string()` on an integer is cfg["num_to_string"], str::starts_with / ends_with / contains are cfg["str_preds"];
+#     * the function result is cfg["result"](fn, expr, env, ctx): it can pair the value with the state AS IT IS at that
+#       point (all mutations before an early return are visible); a function without a value ends in cfg["final_state"].
+#   Everything not understood raises Rs2vError.
+def balanced_block(src, open_at):
+    """the text between the brace at src[open_at] and its partner (comments, string and char literals respected)"""
+    i, depth, n = open_at, 0, len(src)
+    str_re = re.compile(r'"(?:\\.|[^"\\])*"', re.S)
+    chr_re = re.compile(r"'(?:\\.|[^'\\])'")
+    while i < n:
+        c = src[i]
+        if src.startswith("//", i):
+            j = src.find("\n", i)
+            i = n if j < 0 else j
+            continue
+        if src.startswith("/*", i):
+            j = src.find("*/", i)
+            if j < 0:
+                raise Rs2vError("unterminated comment")
+            i = j + 2
+            continue
+        if c == '"':
+            mm = str_re.match(src, i)
+            if not mm:
+                raise Rs2vError("unterminated string")
+            i = mm.end()
+            continue
+        if c == "'":
+            mm = chr_re.match(src, i)
+            if mm:
+                i = mm.end()
+                continue
+        if c == "{":
+            depth += 1
+        elif c == "}":
+            depth -= 1
+            if depth == 0:
+                return src[open_at + 1:i]
+        i += 1
+    raise Rs2vError("unbalanced block")
+
+
+class PState(P2):
+    receiver = None
+    fn = MethodP.fn          # `fn name([&[mut]] self, params) [-> type] block`; sets self.receiver
+
+    def unary(self, no_struct):
+        if self.at("op", "|") or self.at("op", "||"):
+            names = []
+            if not self.opt("op", "||"):
+                self.eat("op", "|")
+                while not self.at("op", "|"):
+                    self.opt("op", "&")
+                    self.opt("id", "mut")
+                    names.append(self.eat("id"))
+                    if self.at("op", ":"):
+                        raise Rs2vError("closure parameter with a type annotation")
+                    if not self.opt("op", ","):
+                        break
+                self.eat("op", "|")
+            if self.at("op", "{"):
+                raise Rs2vError("closure with a block body")
+            return ("closure", names, self.expr(no_struct=no_struct))
+        return super().unary(no_struct)
+
+
+def parse_fn_state(src, name):
+    """a free function, PState grammar -> ([(param, is_mut_ref)], body)"""
+    ms = list(re.finditer(r"(?:pub(?:\([a-z]+\))?\s+)?fn\s+%s\s*\(" % re.escape(name), src))
+    if len(ms) != 1:
+        raise Rs2vError("fn %s: %d definitions" % (name, len(ms)))
+    p = PState(lex(src[ms[0].start():], stop_after_item=True))
+    _n, params, body = p.fn()
+    if p.receiver is not None:
+        raise Rs2vError("fn %s has a receiver" % name)
+    return params, body
+
+
+def parse_trait_method(src, trait, type_name, name):
+    """`fn name` of `impl trait for type_name { .. }` -> (receiver, [(param, is_mut_ref)], body)"""
+    ms = list(re.finditer(r"^\s*impl\s+%s\s+for\s+%s\s*\{" % (re.escape(trait), re.escape(type_name)), src, re.M))
+    if len(ms) != 1:
+        raise Rs2vError("impl %s for %s: %d blocks" % (trait, type_name, len(ms)))
+    body = balanced_block(src, ms[0].end() - 1)
+    fs = list(re.finditer(r"\bfn\s+%s\s*\(" % re.escape(name), body))
+    if len(fs) != 1:
+        raise Rs2vError("fn %s: %d definitions in impl %s for %s" % (name, len(fs), trait, type_name))
+    p = PState(lex(body[fs[0].start():], stop_after_item=True))
+    _n, params, blk = p.fn()
+    return p.receiver, params, blk
+
+
+STATE_MAP_EFFECTS = ("insert", "remove", "retain", "clear")
+
+
+class FnState(Fn2):
+    """cfg keys in addition to Fn2's (see the block comment above):
+      maps          {type: {"key": type, "val": type}}
+      sets          {type: {"elem": type, "add": fmt (elem, set), "del": fmt (elem, set)}}
+      coq_types     {type: coq type text}                    types of loop state components / loop items
+      fn_params / fn_args                                     binders / arguments of the generated function (repeated on loop bodies)
+      self          (type, {field: (type, term)})            the receiver
+      loop          {"state": [dotted names]}
+      result_type   coq type of the function result
+      result        f(fn, expr, env, ctx) -> term            final_state  f(fn, env) -> term
+      calls         {rust path (full or last segment): {"bind": f(fn, args, env, name) -> env2,
+                                                        "tuple": f(fn, args, env, names) -> (wrap: continuation text -> text, env2),
+                                                        "stmt": f(fn, args, env) -> env2}}
+      num_to_string fmt                                       str_preds {method: fmt % {"recv":.., "arg":..}}
+    """
+
+    def __init__(self, cfg):
+        super().__init__(cfg)
+        self.nloops = 0
+
+    # ---- helpers
+    def is_map(self, t):
+        return isinstance(t, str) and t in self.cfg.get("maps", {})
+
+    def is_set(self, t):
+        return isinstance(t, str) and t in self.cfg.get("sets", {})
+
+    def coq_type(self, t):
+        ct = self.cfg.get("coq_types", {}).get(t)
+        if ct is None:
+            raise Rs2vError("no coq type for %s" % (t,))
+        return ct
+
+    def strip(self, e):
+        while e[0] in ("ref", "refmut") or (e[0] == "mcall" and e[2] in ("clone", "to_owned") and not e[3]):
+            e = e[1]
+        return e
+
+    def place(self, e, env):
+        """dotted name of the state component the expression denotes (through `&`, `&mut`, aliases), or None"""
+        e = self.strip(e)
+        lv = self.lvalue(e)
+        if lv is None or not self.has(env, lv):
+            return None
+        t = self.get(env, lv)[0]
+        if isinstance(t, tuple) and t[0] == "alias":
+            return t[1] if self.has(env, t[1]) else None
+        return lv
+
+    def call_cfg(self, e):
+        if e[0] == "call" and e[1][0] == "path":
+            cs = self.cfg.get("calls", {})
+            return cs.get("::".join(e[1][1])) or cs.get(e[1][1][-1])
+        return None
+
+    # ---- types / expressions
+    def type_of(self, e, env):
+        if e[0] == "mcall":
+            m = e[2]
+            if m == "to_string" and not e[3] and self.type_of(e[1], env) in (Ty.NUM_N, Ty.NAT):
+                return Ty.STR
+            if m in self.cfg.get("str_preds", {}):
+                return Ty.BOOL
+            if m == "len" and not e[3]:
+                return Ty.NAT
+        if e[0] == "closure":
+            raise Rs2vError("a closure used as a value")
+        return super().type_of(e, env)
+
+    def ex(self, e, env):
+        k = e[0]
+        if k == "closure":
+            raise Rs2vError("a closure used as a value")
+        if k == "mcall":
+            recv, m, args = e[1], e[2], e[3]
+            if m == "to_string" and not args:
+                t = self.type_of(recv, env)
+                if t in (Ty.NUM_N, Ty.NAT):
+                    f = self.cfg.get("num_to_string", {}).get(t)
+                    if not f:
+                        raise Rs2vError("to_string on %s" % t)
+                    return f % self.ex(recv, env)
+            if m == "len" and not args:
+                t = self.type_of(recv, env)
+                if self.is_map(t) or self.is_set(t):
+                    return "(size %s)" % self.ex(recv, env)
+            if m == "is_empty" and not args:
+                t = self.type_of(recv, env)
+                if isinstance(t, tuple) and t[0] == "list":
+                    return "(vec_is_empty %s)" % self.ex(recv, env)
+                if self.is_map(t) or self.is_set(t):
+                    return "(Nat.eqb (size %s) 0)" % self.ex(recv, env)
+            if m in self.cfg.get("str_preds", {}) and len(args) == 1:
+                if self.type_of(recv, env) != Ty.STR or self.type_of(args[0], env) != Ty.STR:
+                    raise Rs2vError("%s on %s" % (m, self.type_of(recv, env)))
+                return self.cfg["str_preds"][m] % {"recv": self.ex(recv, env), "arg": self.ex(args[0], env)}
+        if k == "bin" and e[1] == "+":
+            t = self.type_of(e[2], env) if e[2][0] != "num" else (self.type_of(e[3], env) if e[3][0] != "num" else None)
+            if t == Ty.NUM_N:
+                return "(%s + %s)%%N" % (self.num(e[2], t, env), self.num(e[3], t, env))
+        lv = self.lvalue(e)
+        if lv is not None and self.has(env, lv):
+            t = self.get(env, lv)[0]
+            if isinstance(t, tuple) and t[0] == "alias":
+                return self.ex(self.field_path(t[1]), env)
+        return super().ex(e, env)
+
+    # ---- statements
+    def stmt(self, s, env, cont, ctx):
+        if s[0] == "break":
+            raise Rs2vError("break")
+        return super().stmt(s, env, cont, ctx)
+
+    def bind(self, name, e, env, cont, ctx):
+        c = self.call_cfg(e)
+        if c is not None:
+            if not c.get("bind"):
+                raise Rs2vError("let %s = a call of %s" % (name, "::".join(e[1][1])))
+            return cont(c["bind"](self, e[2], env, name))
+        return super().bind(name, e, env, cont, ctx)
+
+    def bind_tuple(self, names, e, env, cont, ctx):
+        c = self.call_cfg(e)
+        if c is not None:
+            if not c.get("tuple"):
+                raise Rs2vError("let (%s) = a call of %s" % (", ".join(names), "::".join(e[1][1])))
+            wrap, env2 = c["tuple"](self, e[2], env, names)
+            return wrap(cont(env2))
+        return super().bind_tuple(names, e, env, cont, ctx)
+
+    def map_effect(self, e, env):
+        """env after `PLACE.insert / remove / retain / clear (..)` on a map- or key-set-typed state component, else None"""
+        if e[0] != "mcall" or e[2] not in STATE_MAP_EFFECTS:
+            return None
+        lv = self.place(e[1], env)
+        if lv is None:
+            return None
+        t, cur = self.get(env, lv)
+        m, args = e[2], e[3]
+        if isinstance(cur, dict):
+            return None
+        if self.is_map(t):
+            mc = self.cfg["maps"][t]
+            self.plain(cur, lv)
+            if m == "insert" and len(args) == 2:
+                if self.type_of(args[0], env) != mc["key"] or self.type_of(args[1], env) != mc["val"]:
+                    raise Rs2vError("%s.insert of a %s / %s" % (lv, self.type_of(args[0], env), self.type_of(args[1], env)))
+                return self.set(env, lv, (t, "(<[%s := %s]> %s)" % (self.ex(args[0], env), self.ex(args[1], env), cur)))
+            if m == "remove" and len(args) == 1:
+                if self.type_of(args[0], env) != mc["key"]:
+                    raise Rs2vError("%s.remove of a %s" % (lv, self.type_of(args[0], env)))
+                return self.set(env, lv, (t, "(delete %s %s)" % (self.ex(args[0], env), cur)))
+            if m == "clear" and not args:
+                return self.set(env, lv, (t, "(map_retain (fun _ _ => false) %s)" % cur))
+            if m == "retain" and len(args) == 1 and args[0][0] == "closure" and len(args[0][1]) == 2:
+                kn, vn = args[0][1]
+                env2 = dict(env)
+                binders = []
+                for nm, ty in ((kn, mc["key"]), (vn, mc["val"])):
+                    if nm == "_":
+                        binders.append("_")
+                    else:
+                        v = self.newvar(nm)
+                        env2[nm] = (ty, v)
+                        binders.append(v)
+                if self.type_of(args[0][2], env2) != Ty.BOOL:
+                    raise Rs2vError("retain closure of type %s" % (self.type_of(args[0][2], env2),))
+                body = self.ex(args[0][2], env2)
+                return self.set(env, lv, (t, "(map_retain (fun %s => %s) %s)" % (" ".join(binders), body, cur)))
+            raise Rs2vError("method %s.%s" % (lv, m))
+        if self.is_set(t):
+            sc = self.cfg["sets"][t]
+            self.plain(cur, lv)
+            if m in ("insert", "remove") and len(args) >= 1 and self.type_of(args[0], env) == sc["elem"]:
+                # insert(k, value): the value is not kept by the model (key set)
+                if (m == "insert" and len(args) not in (1, 2)) or (m == "remove" and len(args) != 1):
+                    raise Rs2vError("method %s.%s" % (lv, m))
+                return self.set(env, lv, (t, sc["add" if m == "insert" else "del"] % (self.ex(args[0], env), cur)))
+            raise Rs2vError("method %s.%s" % (lv, m))
+        return None
+
+    def is_unit_effect(self, e, env):
+        if e[0] == "mcall" and e[2] in STATE_MAP_EFFECTS:
+            lv = self.place(e[1], env)
+            if lv is not None:
+                t = self.get(env, lv)[0]
+                if self.is_map(t) or self.is_set(t):
+                    return True
+        c = self.call_cfg(e)
+        if c is not None and c.get("stmt"):
+            return True
+        return super().is_unit_effect(e, env)
+
+    def effect(self, e, env, cont, ctx):
+        if e[0] == "mcall" and e[2] in STATE_MAP_EFFECTS:
+            env2 = self.map_effect(e, env)
+            if env2 is not None:
+                return cont(env2)
+        c = self.call_cfg(e)
+        if c is not None:
+            if not c.get("stmt"):
+                raise Rs2vError("a call of %s as a statement" % "::".join(e[1][1]))
+            return cont(c["stmt"](self, e[2], env))
+        if e[0] == "tuple" and not e[1]:
+            return cont(env)
+        return super().effect(e, env, cont, ctx)
+
+    def match_(self, e, env, k, ctx):
+        scrut, arms = e[1], e[2]
+        if len(arms) == 1 and arms[0][0] == ("wild",):
+            # `match e { _ => body }`: e is evaluated for its effect only
+            body = arms[0][1]
+            if not (scrut[0] == "mcall" and self.is_unit_effect(scrut, env)) and self.call_cfg(scrut) is None:
+                self.ex(scrut, env)          # must at least be an expression the executor can evaluate (no effect)
+                return self.arm(body, env, k, ctx)
+            return self.effect(scrut, env, lambda env2, _v=None: self.arm(body, env2, k, ctx), ctx)
+        pats = [p for p, _b in arms]
+        if len(arms) == 2 and pats[1] == ("wild",) and pats[0][0] == "ctor" and pats[0][1] in (["Some"], ["None"]):
+            other = ("ctor", ["None"], []) if pats[0][1] == ["Some"] else ("ctor", ["Some"], [None])
+            return super().match_(("match", scrut, [arms[0], (other, arms[1][1])]), env, k, ctx)
+        return super().match_(e, env, k, ctx)
+
+    def arm(self, body, env, k, ctx):
+        if body == ("tuple", []):
+            return k(env, None)
+        return super().arm(body, env, k, ctx)
+
+    def tail(self, e, env, k, ctx):
+        if e == ("tuple", []):
+            return k(env, None)
+        return super().tail(e, env, k, ctx)
+
+    # ---- results
+    def result(self, e, env, ctx):
+        f = self.cfg.get("result")
+        if not f:
+            raise Rs2vError("no result builder configured")
+        v = f(self, e, env, ctx)
+        return "LRet %s" % v if ctx.get("loop") else v
+
+    def ret(self, e, env, ctx):
+        if e is None:
+            return self.final(None, env) if not ctx.get("loop") else "LRet %s" % self.final(None, env)
+        return self.result(e, env, ctx)
+
+    def final(self, v, env):
+        if v is None or v == ("tuple", []):
+            f = self.cfg.get("final_state")
+            if not f:
+                raise Rs2vError("function ends without a value")
+            return f(self, env)
+        return self.result(v, env, {})
+
+    # ---- loops: `for x in <list>` over a configured state tuple, with early return
+    def assigned_names(self, node):
+        out = super().assigned_names(node)
+
+        def walk(n):
+            if isinstance(n, list):
+                for x in n:
+                    walk(x)
+                return
+            if not isinstance(n, tuple) or not n:
+                return
+            if n[0] == "mcall" and n[2] in STATE_MAP_EFFECTS:
+                lv = self.lvalue(self.strip(n[1]))
+                out.add(lv if lv is not None else "?")
+            if n[0] == "call" and self.call_cfg(n) is not None:
+                out.add("?")                 # configured callees may change any part of the state
+            for x in n:
+                if isinstance(x, (tuple, list)):
+                    walk(x)
+        walk(node)
+        return out
+
+    def loop2(self, s, env, cont, ctx):
+        if ctx.get("loop"):
+            raise Rs2vError("nested loop")
+        if s[0] != "for":
+            raise Rs2vError("`loop {}`")
+        lc = self.cfg.get("loop")
+        if not lc:
+            raise Rs2vError("a loop, but no loop is configured for this function")
+        pat, it, body = s[1], s[2], s[3]
+        src = self.strip(it)
+        if src[0] == "mcall" and src[2] in ("iter", "into_iter") and not src[3]:
+            src = self.strip(src[1])
+        lt = self.type_of(src, env)
+        if not (isinstance(lt, tuple) and lt[0] == "list"):
+            raise Rs2vError("loop iterator %r" % (it,))
+        lterm = self.ex(src, env)
+        state = [n for n in lc["state"] if self.has(env, n)]
+        if state != list(lc["state"]):
+            raise Rs2vError("loop state variables not in scope: %s" % ", ".join(n for n in lc["state"] if n not in state))
+        for n in state:
+            if isinstance(self.get(env, n)[1], dict):
+                raise Rs2vError("loop state variable %s is a struct" % n)
+        for a in sorted(self.assigned_names(body)):
+            root = a.split(".")[0]
+            if a == "?":
+                raise Rs2vError("the loop changes something that is not a variable (or calls a configured callee)")
+            if root in env and not any(a == n or a.startswith(n + ".") for n in state):
+                raise Rs2vError("the loop assigns %s, which is not part of the configured state (%s)" % (a, ", ".join(state)))
+
+        def close(tv):
+            t, term = tv
+            if isinstance(term, dict):
+                return (t, {f: close(x) for f, x in term.items()})
+            if term is None:
+                return (t, term)
+            return (t, term if (term != POISON and self.is_closed(term)) else POISON)
+        benv = {n: close(tv) for n, tv in env.items()}
+        svars = []
+        for n in state:
+            v = self.newvar(n.split(".")[-1])
+            svars.append(v)
+            benv = self.set(benv, n, (self.get(env, n)[0], v))
+        self.nloops += 1
+        name = "%s_loop%d" % (self.cfg["coq_name"], self.nloops)
+        stype = " * ".join("(%s)" % self.coq_type(self.get(env, n)[0]) for n in state) if state else "unit"
+
+        def pack(env_):
+            ts = [self.plain(self.get(env_, n)[1], n) for n in state]
+            return "tt" if not ts else (ts[0] if len(ts) == 1 else "(" + ", ".join(ts) + ")")
+        init = pack(env)
+        item = self.newvar(pat)
+        benv[pat] = (lt[1], item)
+        body_term = self.run(body[1], body[2], benv, lambda env2, v=None: "LCont %s" % pack(env2), {"loop": True})
+        if POISON in body_term:
+            raise Rs2vError("the loop body uses a local of the enclosing function that is not available in it")
+        spat = "_" if not svars else (svars[0] if len(svars) == 1 else "(" + ", ".join(svars) + ")")
+        self.loops.append((name, "Definition %s%s (st : %s) (%s : %s) : lstep (%s) (%s) :=\nmatch st with\n| %s =>\n%s\nend.\n" % (
+            name, (" " + self.cfg["fn_params"]) if self.cfg.get("fn_params") else "", stype, item,
+            self.coq_type(lt[1]), stype, self.cfg["result_type"], spat, body_term)))
+        avars = [self.newvar(n.split(".")[-1]) for n in state]
+        env_after = env
+        for n, v in zip(state, avars):
+            env_after = self.set(env_after, n, (self.get(env, n)[0], v))
+        apat = "_" if not avars else (avars[0] if len(avars) == 1 else "(" + ", ".join(avars) + ")")
+        call = "(%s%s)" % (name, (" " + self.cfg["fn_args"]) if self.cfg.get("fn_args") else "")
+        return "match for_each_ret %s %s %s with\n| LRet r => r\n| LCont %s =>\n%s\nend" % (
+            call, lterm, init, apat, cont(env_after))
+
+    # ---- whole function
+    def function(self, params, body):
+        env = {}
+        if self.cfg.get("self") is not None:
+            env["self"] = self.cfg["self"]
+        for pn, _ in params:
+            if pn in self.cfg["params"]:
+                env[pn] = self.cfg["params"][pn]
+        return self.run(body[1], body[2], env, lambda env2, v: self.final(v, env2), {})
+
+
+# =================================================================================================
+# Third wave, builder B11 (first client: lib/gen/eval_gen.py, duckscript_sdk/src/utils/eval.rs).  Purely additive:
+# everything above this line is unchanged; FnE extends Fn2 (parser: P2 / parse_fn2 as they are).
+#
+#   FnE   executor, on top of Fn2:
+#     * `match X { Enum::A(a, b) => .., Enum::B => .., _ => .. }` on the enums the configuration declares (cfg['enums']):
+#       one Coq match arm per Rust arm, the continuation duplicated into the arms, a trailing `_` arm allowed, every
+#       variant must be covered otherwise;
+#     * `let x = if c { A } else { break; }` (an arm that leaves the loop / the function instead of giving a value): the
+#       continuation goes into the arms that do give a value;
+#     * struct values held in ONE Coq term (`instruction.instruction_type` is the configured projection of that term);
+#     * `s.ends_with(p)`, `s.contains(p)`, `s.replace(p, r)`, `s.starts_with(p)` with string or char patterns
+#       (Rs2vEvalStrLib.str_ends_with / str_contains / str_replace; `replace` needs a NON-EMPTY LITERAL pattern);
+#     * `for x in &list { .. }` without break / return / partial operation: `fold_left body list state`;
+#       `loop { .. }` with fuel as in Fn2, with a configurable name of the body definition;
+#     * calls with `&mut` parameters that the configuration models as ONE state value (cfg['effect_calls'] for
+#       `let (a, b) = CALL(..);`, cfg['method_effects'] for `recv.method(..)` statements such as HashMap insert / remove):
+#       the handler returns the new environment, nothing is guessed;
+#     * `let NAME = e;` can be emitted as a definition of its own (cfg['named_lets']);
+#     * `Err(error.to_string())`.
+#     Safety net (Fn2 hands the value of a block's last expression to a continuation that may drop it): a last
+#     expression that contains a call FnE has no translation for is refused, and every leaf of a loop body checks that
+#     no variable outside the configured loop state has changed.
+RES_SHAPES.setdefault("eval_itres", {"ok": "ITOk %s", "err_pat": "ITErr e _ _", "err_payload": "e", "panic": "ITPanic"})
+
+PURE_METHODS_E = ("clone", "to_string", "to_owned", "as_str", "len", "is_empty", "is_some", "is_none", "unwrap", "trim",
+                  "starts_with", "ends_with", "contains", "replace")
+
+
+class StopAfterLet(Exception):
+    """raised by a named let configured with stop=True: everything the client wanted has been translated"""
+
+
+class FnE(Fn2):
+    """cfg keys in addition to Fn2's:
+      enums          {Rust enum name: {"type": type tag, "ctors": {variant: (coq constructor, [argument types])}}}
+      structs        as Fn2; a struct VALUE may also be a single Coq term (then "proj" is used for field access)
+      loop           Fn2's keys plus "e": True (use FnE's loop), "name": name of the body definition, "pure": True for a
+                     `for x in list` body that is a plain state transformer, "item": (type, coq type),
+                     "ghost": [names of the state components that are not Rust variables]
+      extra_env      {name: (type, term)} put into the environment besides the parameters (state values with no Rust name)
+      effect_calls   {rust path: f(fn, names, args, env, cont, ctx) -> coq text}   for `let (names..) = path(args);`
+      method_effects {(receiver variable, method): f(fn, args, env) -> env2}
+      named_lets     {rust local: {"def": coq name, "binders": text, "args": text, "type": coq type, "stop": bool}}
+      result_handler f(fn, expr, env, ctx) -> coq term | None   (the function's result for a Rust value Fn2 does not know)
+    """
+
+    def __init__(self, cfg):
+        super().__init__(cfg)
+        self.aux = []
+
+    # ---- struct values held in one Coq term
+    def plain_field(self, e, env):
+        if e[0] != "field":
+            return None
+        lv = self.lvalue(e)
+        if lv is not None and self.has(env, lv):
+            return None
+        bt, bterm = self.value(e[1], env)
+        if is_struct(bt) and isinstance(bterm, str):
+            sc = self.cfg.get("structs", {}).get(bt[1])
+            if not sc or e[2] not in sc.get("proj", {}) or e[2] not in dict(sc["fields"]):
+                raise Rs2vError("field %s of %s has no Coq projection here" % (e[2], bt[1]))
+            return (dict(sc["fields"])[e[2]], sc["proj"][e[2]] % self.plain(bterm, "struct value"))
+        return None
+
+    def value(self, e, env):
+        e0 = e
+        while e0[0] in ("ref", "refmut") or (e0[0] == "mcall" and e0[2] in ("clone", "to_owned") and not e0[3]):
+            e0 = e0[1]
+        pf = self.plain_field(e0, env)
+        if pf is not None:
+            return pf
+        return super().value(e, env)
+
+    def pattern_term(self, e, env, what, literal_nonempty=False):
+        """the pattern argument of starts_with / ends_with / contains / replace as a Coq string"""
+        while e[0] == "ref" or (e[0] == "mcall" and e[2] in ("to_string", "as_str", "to_owned") and not e[3]):
+            e = e[1]
+        if e[0] == "str":
+            if literal_nonempty and e[1] == "":
+                raise Rs2vError("%s with an empty pattern" % what)
+            return coq_str_lit(e[1])
+        if e[0] == "char":
+            return "[" + coq_char(e[1]) + "]"
+        if e[0] == "path":
+            st = self.cfg.get("statics", {}).get("::".join(e[1]))
+            if st and st[0] == Ty.CHAR:
+                return "[" + coq_char(st[1]) + "]"
+            if st and st[0] == Ty.STR and (st[1] != "" or not literal_nonempty):
+                return coq_str_lit(st[1])
+        if literal_nonempty:
+            raise Rs2vError("%s: the pattern is not a non-empty literal" % what)
+        if self.type_of(e, env) == Ty.STR:
+            return self.ex(e, env)
+        raise Rs2vError("%s: pattern %r" % (what, e))
+
+    def type_of(self, e, env):
+        if e[0] == "field":
+            pf = self.plain_field(e, env)
+            if pf is not None:
+                return pf[0]
+        if e[0] == "mcall":
+            if e[2] in ("ends_with", "contains"):
+                return Ty.BOOL
+            if e[2] == "replace":
+                return Ty.STR
+            if e[2] == "as_str" and not e[3]:
+                return self.type_of(e[1], env)
+        if e[0] == "tuple" and not e[1]:
+            return "unit"
+        return super().type_of(e, env)
+
+    def ex(self, e, env):
+        if e[0] == "field":
+            pf = self.plain_field(e, env)
+            if pf is not None:
+                return pf[1]
+        if e[0] == "tuple" and not e[1]:
+            return "tt"
+        if e[0] == "mcall":
+            recv, m, args = e[1], e[2], e[3]
+            if m in ("starts_with", "ends_with", "contains") and len(args) == 1:
+                if self.type_of(recv, env) != Ty.STR:
+                    raise Rs2vError("%s on %s" % (m, self.type_of(recv, env)))
+                return "(str_%s %s %s)" % (m, self.pattern_term(args[0], env, m), self.ex(recv, env))
+            if m == "replace" and len(args) == 2:
+                if self.type_of(recv, env) != Ty.STR:
+                    raise Rs2vError("replace on %s" % (self.type_of(recv, env),))
+                rep = args[1]
+                while rep[0] == "ref":
+                    rep = rep[1]
+                if rep[0] == "char":
+                    raise Rs2vError("replace: the replacement is a char")
+                return "(str_replace %s %s %s)" % (self.pattern_term(args[0], env, "replace", True),
+                                                   self.pattern_term(rep, env, "replace (replacement)"), self.ex(recv, env))
+            if m == "as_str" and not args:
+                return self.ex(recv, env)
+        return super().ex(e, env)
+
+    # ---- what may stand as the last expression of a block
+    def inert(self, e):
+        """no call in e that FnE has no translation for (such a value may be handed to any continuation)"""
+        if isinstance(e, list):
+            return all(self.inert(x) for x in e)
+        if not isinstance(e, tuple) or not e:
+            return True
+        k = e[0]
+        if k in ("char", "str", "num", "bool", "path"):
+            return True
+        if k == "call":
+            if e[1][0] != "path":
+                return False
+            name = "::".join(e[1][1])
+            known = name in ("Some", "Ok", "Err", "String::new") or name in self.cfg.get("ctor_types", {}) \
+                or name in self.cfg.get("ctor_handlers", {}) or self.helper(e[1][1]) is not None
+            return known and self.inert(e[2])
+        if k == "mcall":
+            return e[2] in PURE_METHODS_E and self.inert(e[1]) and self.inert(e[3])
+        if k == "macro":
+            return e[1] == "vec" and not e[2]
+        if k == "struct":
+            return all(self.inert(x) for _f, x in e[2])
+        if k in ("if", "iflet", "match", "block", "let", "assign", "for", "loop", "return", "break"):
+            return False
+        return all(self.inert(x) for x in e[1:] if isinstance(x, (tuple, list)))
+
+    def method_effect(self, e, env):
+        if e[0] == "mcall" and e[1][0] == "path" and len(e[1][1]) == 1:
+            return self.cfg.get("method_effects", {}).get((e[1][1][0], e[2]))
+        return None
+
+    def is_unit_effect(self, e, env):
+        if self.method_effect(e, env) is not None:
+            return True
+        return super().is_unit_effect(e, env)
+
+    def tail(self, e, env, k, ctx):
+        if e[0] not in ("if", "match", "iflet", "block") and not self.is_unit_effect(e, env) and not self.inert(e):
+            raise Rs2vError("the last expression of a block contains a call that is not understood: %r" % (e,))
+        return super().tail(e, env, k, ctx)
+
+    def effect(self, e, env, cont, ctx):
+        h = self.method_effect(e, env)
+        if h is not None:
+            return self.hoist(e[3], env, ctx, lambda a2, env2: cont(h(self, a2, env2)), hint="x")
+        return super().effect(e, env, cont, ctx)
+
+    # ---- statements
+    def stmt(self, s, env, cont, ctx):
+        if s[0] == "break" and ctx.get("loop") and not self.cfg["step"].get("brk"):
+            raise Rs2vError("break in a loop that is translated as a fold")
+        return super().stmt(s, env, cont, ctx)
+
+    def panic_term(self, ctx):
+        p = self.cfg["step"].get("panic") if ctx.get("loop") else self.cfg["res"].get("panic")
+        if not p:
+            raise Rs2vError("a panic is not expressible here")
+        return p
+
+    def no_shadow(self, name, ctx):
+        """inside a loop body a new binding must not hide a variable of the enclosing function: the loop state is read back
+        by NAME at the end of the body"""
+        if ctx.get("loop") and name and name != "_" and name in getattr(self, "_outer", ()):
+            raise Rs2vError("the loop body re-declares %s" % name)
+
+    def opt_match(self, scrut, var, some_blk, none_blk, env, k, ctx):
+        self.no_shadow(var, ctx)
+        return super().opt_match(scrut, var, some_blk, none_blk, env, k, ctx)
+
+    def bind(self, name, e, env, cont, ctx):
+        self.no_shadow(name, ctx)
+        e0 = e
+        while e0[0] == "block" and not e0[1] and e0[2] is not None:
+            e0 = e0[2]
+        if e0[0] == "if":
+            a, b = e0[2], e0[3]
+            pure = not a[1] and a[2] is not None and b is not None and not b[1] and b[2] is not None \
+                and a[2][0] not in ("if", "match", "iflet", "block") and b[2][0] not in ("if", "match", "iflet", "block")
+            if not pure:
+                def k(env2, v):
+                    if v is None:
+                        raise Rs2vError("let %s = if ..: an arm that goes on has no value" % name)
+                    return self.bind(name, v, env2, lambda env3, _v=None: cont(self.keep(env3, env, name)), ctx)
+                return self.if_(e0, env, k, ctx)
+        nl = self.cfg.get("named_lets", {}).get(name)
+        if nl:
+            def cont2(env2, _v=None):
+                t, term = env2[name]
+                if ctx.get("loop") or isinstance(term, dict) or not self.is_closed(self.plain(term, name)):
+                    raise Rs2vError("let %s = .. depends on more than the function's parameters" % name)
+                if any(n == nl["def"] for n, _t in self.aux):
+                    raise Rs2vError("let %s twice" % name)
+                self.aux.append((nl["def"], "Definition %s %s : %s :=\n%s.\n" % (nl["def"], nl["binders"], nl["type"], term)))
+                if nl.get("stop"):
+                    raise StopAfterLet(name)
+                env3 = dict(env2)
+                env3[name] = (t, "(%s %s)" % (nl["def"], nl["args"]) if nl["args"] else nl["def"])
+                return cont(env3)
+            return super().bind(name, e, env, cont2, ctx)
+        return super().bind(name, e, env, cont, ctx)
+
+    def bind_tuple(self, names, e, env, cont, ctx):
+        for n in names:
+            self.no_shadow(n, ctx)
+        if e[0] == "call" and e[1][0] == "path":
+            h = self.cfg.get("effect_calls", {}).get("::".join(e[1][1]))
+            if h:
+                return h(self, names, e[2], env, cont, ctx)
+        return super().bind_tuple(names, e, env, cont, ctx)
+
+    def err_payload(self, x, env):
+        while x[0] == "mcall" and x[2] in ("to_string", "clone") and not x[3]:
+            x = x[1]
+        return super().err_payload(x, env)
+
+    def result(self, e, env, ctx):
+        h = self.cfg.get("result_handler")
+        if h:
+            r = h(self, e, env, ctx)
+            if r is not None:
+                return r
+        return super().result(e, env, ctx)
+
+    # ---- match on a configured enum
+    def match_(self, e, env, k, ctx):
+        scrut, arms = e[1], e[2]
+        enums = self.cfg.get("enums", {})
+        ename = None
+        for pat, _body in arms:
+            if pat[0] == "ctor" and len(pat[1]) == 2 and pat[1][0] in enums:
+                ename = pat[1][0]
+        if ename is None:
+            return super().match_(e, env, k, ctx)
+        en = enums[ename]
+
+        def go(scrut2, env2):
+            t = self.type_of(scrut2, env2)
+            if t != en["type"]:
+                raise Rs2vError("match with %s patterns on a value of type %s" % (ename, t))
+            term = self.ex(scrut2, env2)
+            out, seen, wild = ["match %s with" % term], set(), False
+            for pat, body in arms:
+                if wild:
+                    raise Rs2vError("match arm after `_`")
+                if pat[0] == "wild":
+                    wild = True
+                    out += ["| _ =>", self.arm(body, env2, k, ctx)]
+                    continue
+                if pat[0] != "ctor" or len(pat[1]) != 2 or pat[1][0] != ename or pat[1][1] not in en["ctors"]:
+                    raise Rs2vError("match pattern %r" % (pat,))
+                var = pat[1][1]
+                if var in seen:
+                    raise Rs2vError("variant %s::%s matched twice" % (ename, var))
+                seen.add(var)
+                coq, argts = en["ctors"][var]
+                if len(pat[2]) != len(argts):
+                    raise Rs2vError("pattern %s::%s with %d fields" % (ename, var, len(pat[2])))
+                env3, vs = dict(env2), []
+                for x, xt in zip(pat[2], argts):
+                    if xt is None:           # a field the model's constructor does not keep
+                        if x:
+                            raise Rs2vError("%s::%s: the model does not keep the field bound to %s" % (ename, var, x))
+                        continue
+                    self.no_shadow(x, ctx)
+                    v = self.newvar(x or "w")
+                    vs.append(v)
+                    if x:
+                        env3[x] = (xt, v)
+                out += ["| %s =>" % " ".join([coq] + vs), self.arm(body, env3, k, ctx)]
+            if not wild and seen != set(en["ctors"]):
+                raise Rs2vError("match on %s does not cover %s" % (ename, ", ".join(sorted(set(en["ctors"]) - seen))))
+            out.append("end")
+            return "\n".join(out)
+        return self.hoist(scrut, env, ctx, go, hint="x")
+
+    # ---- loops
+    def loop2(self, s, env, cont, ctx):
+        lc = self.cfg.get("loop")
+        if not lc or not lc.get("e"):
+            return super().loop2(s, env, cont, ctx)
+        if ctx.get("loop"):
+            raise Rs2vError("nested loop")
+        if self.loops:
+            raise Rs2vError("more than one loop")
+        if s[0] == "loop":
+            pat, it, body = None, None, s[1]
+        else:
+            pat, it, body = s[1], s[2], s[3]
+        state = lc["state"]
+        for n in state:
+            if not self.has(env, n) or isinstance(self.get(env, n)[1], dict):
+                raise Rs2vError("loop state variable %s is not in scope" % n)
+        for a in sorted(self.assigned_names(body)):
+            root = a.split(".")[0]
+            if a == "?":
+                raise Rs2vError("the loop assigns to something that is not a variable")
+            if root in env and not any(a == n or a.startswith(n + ".") for n in state):
+                raise Rs2vError("the loop assigns %s, which is not part of the configured state (%s)" % (a, ", ".join(state)))
+
+        def close(tv):
+            t, term = tv
+            if isinstance(term, dict):
+                return (t, {f: close(x) for f, x in term.items()})
+            return (t, term if (term != POISON and self.is_closed(term)) else POISON)
+        benv = {n: close(tv) for n, tv in env.items()}
+        svars = []
+        for n in state:
+            v = self.newvar(n)
+            svars.append(v)
+            benv = self.set(benv, n, (self.get(env, n)[0], v))
+        name = lc.get("name") or ("%s_body" % self.cfg["coq_name"])
+        call = "(%s%s)" % (name, (" " + self.cfg["fn_args"]) if self.cfg.get("fn_args") else "")
+        frozen = {n: tv for n, tv in benv.items() if n not in state}
+
+        def pack(env_, check=True):
+            for n, tv in frozen.items():
+                if check and n in env_ and env_[n] != tv:
+                    raise Rs2vError("the loop body changes %s, which is not part of the configured state (%s)" % (n, ", ".join(state)))
+            ts = [self.plain(self.get(env_, n)[1], n) for n in state]
+            return ts[0] if len(ts) == 1 else "(" + ", ".join(ts) + ")"
+        init = pack(env, False)
+        item_decl = ""
+        stp = self.cfg["step"]
+        if s[0] == "loop":
+            if not lc.get("fuel"):
+                raise Rs2vError("`loop` without a configured fuel expression")
+            if lc.get("pure"):
+                raise Rs2vError("`loop` configured as a fold")
+            drive = "loop_fuel %s %s %s" % (call, lc["fuel"], init)
+        else:
+            src = it
+            while src[0] == "ref":
+                src = src[1]
+            if src[0] == "mcall" and src[2] == "iter" and not src[3]:
+                src = src[1]
+            lt = self.type_of(src, env) if src[0] in ("path", "field") else None
+            if not (isinstance(lt, tuple) and lt[0] == "list" and lc.get("item") and lt[1] == lc["item"][0] and lc.get("pure")):
+                raise Rs2vError("loop iterator %r" % (it,))
+            item = self.newvar(pat)
+            benv[pat] = (lc["item"][0], item)
+            item_decl = " (%s : %s)" % (item, lc["item"][1])
+            drive = "fold_left %s %s %s" % (call, self.ex(src, env), init)
+        self._pack = pack
+        self._outer = set(env)
+        body_term = self.run(body[1], body[2], benv, lambda env2, v=None: stp["cont"] % pack(env2), {"loop": True})
+        self._pack = None
+        self._outer = set()
+        if POISON in body_term:
+            raise Rs2vError("the loop body uses a local of the enclosing function that is not one of its parameters")
+        spat = svars[0] if len(svars) == 1 else "(" + ", ".join(svars) + ")"
+        self.loops.append((name, "Definition %s%s (st : %s)%s : %s :=\nmatch st with\n| %s =>\n%s\nend.\n" % (
+            name, (" " + self.cfg["fn_params"]) if self.cfg.get("fn_params") else "",
+            lc["state_type"], item_decl, stp["type"], spat, body_term)))
+        if lc.get("pure") and len(state) == 1:
+            # a fold has one outcome: the state after the loop is the fold itself (no match, so that a later
+            # `let` of the function stays a closed term)
+            return cont(self.set(env, state[0], (self.get(env, state[0])[0], "(%s)" % drive)))
+        avars = [self.newvar(n) for n in state]
+        env_after = env
+        for n, v in zip(state, avars):
+            env_after = self.set(env_after, n, (self.get(env, n)[0], v))
+        apat = avars[0] if len(avars) == 1 else "(" + ", ".join(avars) + ")"
+        return self.cfg["res"]["consume"] % {"drive": drive, "pat": apat, "after": cont(env_after)}
+
+    def newvar(self, base):
+        return super().newvar(base.replace("%", ""))
+
+    def function(self, params, body):
+        env = {}
+        for pn, _ in params:
+            if pn in self.cfg["params"]:
+                env[pn] = self.cfg["params"][pn]
+        for n, tv in self.cfg.get("extra_env", {}).items():
+            env[n] = tv
+        return self.run(body[1], body[2], env, lambda env2, v: self.final(v, env2), {})
+
+
+# =================================================================================================
+# Record-state wave, builder B18 (first client: lib/gen/onerror_gen.py — the on_error command family of
+# duckscript_sdk/src/sdk/std/on_error/).  Purely additive: nothing above this line is changed; FnRec extends FnState
+# (parser: PState / parse_fn_state / parse_trait_method as they are).
+#
+#   FnRec   executor for command `run` functions that keep their state in a STRING-KEYED sub-map of which the hand model
+#           keeps a typed record (one Option-typed field per key):
+#     * cfg["records"] = {struct name: {"enum": "StateValue", "kinds": {variant: inner type},
+#                                       "keys": {key literal: (field, variant)}}}: a struct-typed state component
+#       (cfg["structs"], Fn2) that stands for a HashMap<String, Enum>.  The KEY of every access must evaluate to a string
+#       LITERAL at translation time (a literal, a `static`, a local bound to one; through to_string / clone / &):
+#         m.insert(K, Enum::V(x));     field(K) := Some x      V must be the variant the model keeps for K
+#         m.remove(K);                 field(K) := None            m.clear();   every field := None
+#         m.contains_key(K)            field(K) is Some
+#         match m.get(K) { Some(v) => A, None => B }    a match on field(K) (decided statically when the field is known to
+#                                      be Some / None at this point); v is a value of variant kind(K)
+#         match v { Enum::V(x) => A, Enum::W(y) => B, _ => C }   on such a value: the arm of kind(K), else the `_` arm —
+#                                      justified by the typed-record invariant the insert rule enforces
+#         (`if let` forms of both)
+#       an unknown key, a non-literal key, a value of another variant: Rs2vError (not understood), never a guess;
+#     * VALUE-PRODUCING control flow with statements and effects in the arms — `let x = if c { s; a } else { t; b };`,
+#       `let (a, b) = if ..`, `let x = match ..`, `let x = { s; e };` — by continuation duplication: the rest of the
+#       function is translated once per leaf, every partial operation of a leaf (v[i]) is bound INSIDE its arm;
+#     * cfg["inline"] = {fn name: {"params": .., "body": .., "ret": type}}: helpers that are executed at the call site
+#       (a helper with a run-time key parameter is thereby specialised to the literal key of each call); an argument
+#       that denotes a state component is passed by reference (alias), everything else by value; `return` inside an
+#       inlined helper is refused; calls may sit inside a larger expression (they are bound first, left to right, never
+#       on the right of a short-circuit operator);
+#     * bool::to_string is cfg["bool_to_string"]; Vec::is_empty is an explicit match on the list;
+#     * the function result goes through cfg["result"] (FnState) after inline calls / partial operations in it are bound.
+#   Everything not understood raises Rs2vError.
+LITERAL_TERM = re.compile(r"^\[(?:\d+%N(?:;\d+%N)*)?\]$")
+
+
+def T_variant(enum, kind):
+    return ("variant", enum, kind)
+
+
+class FnRec(FnState):
+    # ---- helpers
+    def record_of(self, t):
+        if is_struct(t):
+            return self.cfg.get("records", {}).get(t[1])
+        return None
+
+    def rec_place(self, e, env):
+        """dotted name of the record-backed map the expression denotes (through `&`, aliases), or None"""
+        lv = self.place(e, env)
+        if lv is None:
+            return None
+        t, val = self.get(env, lv)
+        if self.record_of(t) is not None and isinstance(val, dict):
+            return lv
+        return None
+
+    def literal(self, e, env, what):
+        """the python string an expression of type String / &str evaluates to at translation time"""
+        e = self.strip(e)
+        while e[0] == "mcall" and e[2] in ("to_string", "to_owned", "clone", "as_str") and not e[3]:
+            e = self.strip(e[1])
+        if self.type_of(e, env) != Ty.STR:
+            raise Rs2vError("%s: the key is not a string" % what)
+        term = self.ex(e, env)
+        if not LITERAL_TERM.match(term):
+            raise Rs2vError("%s: the key is not a literal known at translation time" % what)
+        return "".join(chr(int(x[:-2])) for x in term[1:-1].split(";") if x)
+
+    def rec_key(self, lv, e, env, what):
+        rc = self.record_of(self.get(env, lv)[0])
+        key = self.literal(e, env, what)
+        if key not in rc["keys"]:
+            raise Rs2vError("%s: the model has no field for the state key %r" % (what, key))
+        field, kind = rc["keys"][key]
+        return rc, key, field, kind
+
+    def inline_cfg(self, e):
+        if e[0] == "call" and e[1][0] == "path":
+            ic = self.cfg.get("inline", {})
+            return ic.get("::".join(e[1][1])) or ic.get(e[1][1][-1])
+        return None
+
+    def has_inline(self, node):
+        if isinstance(node, list):
+            return any(self.has_inline(x) for x in node)
+        if not isinstance(node, tuple) or not node:
+            return False
+        if self.inline_cfg(node) is not None:
+            return True
+        return any(self.has_inline(x) for x in node if isinstance(x, (tuple, list)))
+
+    def let_names(self, node):
+        """every name a `let` declares anywhere inside node"""
+        out = set()
+
+        def walk(n):
+            if isinstance(n, list):
+                for x in n:
+                    walk(x)
+                return
+            if not isinstance(n, tuple) or not n:
+                return
+            if n[0] == "let":
+                out.add(n[1])
+            elif n[0] == "lettuple":
+                out.update(n[1])
+            elif n[0] == "ctor" and len(n) == 3 and isinstance(n[2], list):
+                out.update(x for x in n[2] if isinstance(x, str))
+            for x in n:
+                if isinstance(x, (tuple, list)):
+                    walk(x)
+        walk(node)
+        return out
+
+    def leave(self, env_in, env_out, node):
+        """the outer environment after a value-producing block: the outer names with their values as the block left them"""
+        sh = sorted(x for x in self.let_names(node) if x in env_out)
+        if sh:
+            raise Rs2vError("a nested block re-declares %s" % ", ".join(sh))
+        return {x: env_in[x] for x in env_out}
+
+    # ---- types / expressions
+    def type_of(self, e, env):
+        if e[0] == "mcall":
+            if e[2] == "to_string" and not e[3] and self.type_of(e[1], env) == Ty.BOOL:
+                return Ty.STR
+            if e[2] == "as_str" and not e[3]:
+                return self.type_of(e[1], env)
+            if e[2] == "contains_key" and len(e[3]) == 1 and self.rec_place(e[1], env) is not None:
+                return Ty.BOOL
+        if e[0] == "call" and e[1] == ("path", ["String", "new"]) and not e[2]:
+            return Ty.STR
+        if e[0] == "path" and len(e[1]) == 1 and e[1][0] in env and isinstance(env[e[1][0]][0], tuple) \
+                and env[e[1][0]][0][0] == "variant":
+            return env[e[1][0]][0]
+        return super().type_of(e, env)
+
+    def ex(self, e, env):
+        if e[0] == "mcall":
+            recv, m, args = e[1], e[2], e[3]
+            if m == "to_string" and not args and self.type_of(recv, env) == Ty.BOOL:
+                f = self.cfg.get("bool_to_string")
+                if not f:
+                    raise Rs2vError("to_string on a bool")
+                return f % self.ex(recv, env)
+            if m == "as_str" and not args:
+                return self.ex(recv, env)
+            if m == "is_empty" and not args:
+                t = self.type_of(recv, env)
+                if isinstance(t, tuple) and t[0] == "list":
+                    return "(match %s with [] => true | _ :: _ => false end)" % self.ex(recv, env)
+            if m == "contains_key" and len(args) == 1 and self.rec_place(recv, env) is not None:
+                lv = self.rec_place(recv, env)
+                _rc, _key, field, _kind = self.rec_key(lv, args[0], env, "%s.contains_key" % lv)
+                cur = self.plain(self.get(env, lv + "." + field)[1], lv + "." + field)
+                if some_inner(cur) is not None:
+                    return "true"
+                if cur == "None":
+                    return "false"
+                return "(match %s with Some _ => true | None => false end)" % cur
+            if m in ("get", "insert", "remove", "clear") and self.rec_place(recv, env) is not None:
+                raise Rs2vError("%s on the state map in a position the translator has no rule for" % m)
+        if self.inline_cfg(e) is not None:
+            raise Rs2vError("a call of an inlined helper in a position where it cannot be bound first")
+        if e[0] == "path" and len(e[1]) == 1 and e[1][0] in env and isinstance(env[e[1][0]][0], tuple) \
+                and env[e[1][0]][0][0] == "variant":
+            raise Rs2vError("a value of the state map used as a whole (only `match` on it is understood)")
+        return super().ex(e, env)
+
+    def value2(self, e, env):
+        """like value, a tuple expression gives (tuple type, [component values])"""
+        if e[0] == "tuple" and e[1]:
+            vs = [self.value2(x, env) for x in e[1]]
+            return (T_tuple(*[v[0] for v in vs]), vs)
+        return self.value(e, env)
+
+    def as_term(self, tv, what):
+        t, val = tv
+        if isinstance(val, list):
+            return "(" + ", ".join(self.as_term(x, what) for x in val) + ")"
+        if isinstance(val, dict):
+            return self.struct_term(t, val)
+        return self.plain(val, what)
+
+    # ---- binding inline calls and partial operations, then evaluating
+    def hoist_calls(self, e, env, ctx, k):
+        """k(e2, env2): e2 is e with every call of an inlined helper replaced by a temporary bound in env2"""
+        pend = []
+
+        def walk(n, guarded):
+            if isinstance(n, list):
+                return [walk(x, guarded) for x in n]
+            if not isinstance(n, tuple) or not n:
+                return n
+            if n[0] in ("if", "iflet", "match", "block", "closure"):
+                if self.has_inline(n):
+                    raise Rs2vError("a call of an inlined helper inside a nested %s expression" % n[0])
+                return n
+            if n[0] in ("char", "str", "num", "bool", "path"):
+                return n
+            if self.inline_cfg(n) is not None:
+                if guarded:
+                    raise Rs2vError("a call of an inlined helper on the right of a short-circuit operator")
+                args = walk(n[2], guarded)
+                self._h += 1
+                tmp = "%%c%d" % self._h
+                pend.append((tmp, ("call", n[1], args)))
+                return ("path", [tmp])
+            if n[0] == "bin" and n[1] in ("&&", "||"):
+                return ("bin", n[1], walk(n[2], guarded), walk(n[3], True))
+            if n[0] == "struct":
+                return ("struct", n[1], [(f, walk(x, guarded)) for f, x in n[2]])
+            return tuple(walk(x, guarded) if isinstance(x, (tuple, list)) else x for x in n)
+
+        e2 = walk(e, False)
+
+        def bindall(i, env_):
+            if i == len(pend):
+                return k(e2, env_)
+            tmp, call = pend[i]
+
+            def kk(env2, tv):
+                if e2 != ("path", [tmp]) and any(env2.get(x) != env_.get(x) for x in env_):
+                    raise Rs2vError("an inlined helper that changes the state is called inside a larger expression")
+                env3 = dict(env2)
+                t, val = tv
+                env3[tmp] = (t, self.as_term(tv, "the value of the inlined call") if isinstance(val, list) else val)
+                return bindall(i + 1, env3)
+            return self.inline_call(call, env_, ctx, kk)
+        return bindall(0, env)
+
+    def hoist_all(self, e, env, ctx, k):
+        return self.hoist_calls(e, env, ctx, lambda e2, env2: self.hoist(e2, env2, ctx, k))
+
+    def inline_call(self, call, env, ctx, k):
+        """execute the helper's body at the call site; k(env2, (type, value))"""
+        ic = self.inline_cfg(call)
+        name = "::".join(call[1][1])
+        params, body, args = ic["params"], ic["body"], call[2]
+        if len(params) != len(args):
+            raise Rs2vError("%s: %d arguments for %d parameters" % (name, len(args), len(params)))
+
+        def go(args2, env1):
+            cenv, roots = {}, []
+            for (pn, _mut), a in zip(params, args2):
+                pl = self.place(a, env1)
+                if pl is not None and (isinstance(self.get(env1, pl)[1], dict) or self.is_map(self.get(env1, pl)[0])
+                                       or self.is_set(self.get(env1, pl)[0])):
+                    root = pl.split(".")[0]
+                    if root not in roots:
+                        roots.append(root)
+                    cenv[pn] = (("alias", pl), None)
+                else:
+                    cenv[pn] = self.value(self.strip(a), env1)
+            for r in roots:
+                if r in cenv or r in self.let_names(body):
+                    raise Rs2vError("%s: the name %s is used by both the caller's state and the helper" % (name, r))
+                cenv[r] = env1[r]
+            ctx2 = dict(ctx)
+            ctx2["inline"] = name
+
+            def done(cenv2, v):
+                if v is None:
+                    raise Rs2vError("%s: the inlined helper ends without a value" % name)
+
+                def fin(cenv3, tv):
+                    t = ic.get("ret") or tv[0]
+                    env2 = dict(env1)
+                    for r in roots:
+                        env2[r] = cenv3[r]
+                    return k(env2, (t, tv[1]))
+                return self.eval_cps(v, cenv2, ctx2, fin)
+            return self.run(body[1], body[2], cenv, done, ctx2)
+        return self.hoist(args, env, ctx, go)
+
+    def eval_cps(self, e, env, ctx, k):
+        """k(env2, (type, value)) at every leaf of a value-producing expression (control flow, blocks, inline calls)"""
+        while e[0] == "block" and not e[1] and e[2] is not None:
+            e = e[2]
+
+        def leaf(env2, v):
+            if v is None:
+                raise Rs2vError("a value-producing block ends without a value")
+            return self.eval_cps(v, env2, ctx, k)
+        if e[0] == "if":
+            if e[3] is None:
+                raise Rs2vError("a value-producing `if` without else")
+            return self.if_(e, env, leaf, ctx)
+        if e[0] == "iflet":
+            return self.iflet2(e, env, leaf, ctx)
+        if e[0] == "match":
+            return self.match_(e, env, leaf, ctx)
+        if e[0] == "block":
+            return self.run(e[1], e[2], env, leaf, ctx)
+        return self.hoist_all(e, env, ctx, lambda e2, env2: k(env2, self.value2(e2, env2)))
+
+    def is_control(self, e):
+        while e[0] == "block" and not e[1] and e[2] is not None:
+            e = e[2]
+        return e[0] in ("if", "iflet", "match", "block") or self.has_inline(e)
+
+    # ---- statements
+    def bind(self, name, e, env, cont, ctx):
+        if self.call_cfg(e) is None and self.is_control(e):
+            def k(env2, tv):
+                t = self.cfg.get("locals", {}).get(name) or tv[0]
+                if t is None:
+                    raise Rs2vError("type of local %s unknown" % name)
+                env3 = self.leave(env2, env, e)
+                env3[name] = (t, self.as_term(tv, name) if isinstance(tv[1], list) else tv[1])
+                return cont(env3)
+            return self.eval_cps(e, env, ctx, k)
+        return super().bind(name, e, env, cont, ctx)
+
+    def bind_tuple(self, names, e, env, cont, ctx):
+        if self.call_cfg(e) is None and self.is_control(e):
+            def k(env2, tv):
+                t, val = tv
+                if not (isinstance(t, tuple) and t[0] == "tuple" and len(t[1]) == len(names)):
+                    raise Rs2vError("let (%s) = a value of type %s" % (", ".join(names), t))
+                env3 = self.leave(env2, env, e)
+                if isinstance(val, list):
+                    for n, x in zip(names, val):
+                        if n != "_":
+                            env3[n] = (x[0], self.as_term(x, n) if isinstance(x[1], list) else x[1])
+                    return cont(env3)
+                vs = []
+                for n, nt in zip(names, t[1]):
+                    v = self.newvar(n if n != "_" else "w")
+                    vs.append(v)
+                    if n != "_":
+                        env3[n] = (nt, v)
+                return "match %s with\n| (%s) =>\n%s\nend" % (self.plain(val, "tuple"), ", ".join(vs), cont(env3))
+            return self.eval_cps(e, env, ctx, k)
+        return super().bind_tuple(names, e, env, cont, ctx)
+
+    def ret(self, e, env, ctx):
+        if ctx.get("inline"):
+            raise Rs2vError("%s: `return` inside an inlined helper" % ctx["inline"])
+        return super().ret(e, env, ctx)
+
+    def if_(self, e, env, k, ctx):
+        if self.has_inline(e[1]):
+            return self.hoist_calls(e[1], env, ctx, lambda c2, env2: FnState.if_(self, ("if", c2, e[2], e[3]), env2, k, ctx))
+        return super().if_(e, env, k, ctx)
+
+    # ---- the record-backed map
+    def rec_effect(self, lv, m, args, env):
+        what = "%s.%s" % (lv, m)
+        if m == "insert" and len(args) == 2:
+            rc, key, field, kind = self.rec_key(lv, args[0], env, what)
+            val = self.strip(args[1])
+            if not (val[0] == "call" and val[1][0] == "path" and len(val[1][1]) == 2 and val[1][1][0] == rc["enum"]
+                    and len(val[2]) == 1):
+                raise Rs2vError("%s: the value stored under %r is not %s::<variant>(..)" % (what, key, rc["enum"]))
+            if val[1][1][1] != kind:
+                raise Rs2vError("%s: the model keeps %s::%s under %r, the source stores %s::%s" % (
+                    what, rc["enum"], kind, key, rc["enum"], val[1][1][1]))
+            it = rc["kinds"][kind]
+            if self.type_of(val[2][0], env) != it:
+                raise Rs2vError("%s: %s::%s of a %s" % (what, rc["enum"], kind, self.type_of(val[2][0], env)))
+            return self.set(env, lv + "." + field, (T_opt(it), "(Some %s)" % self.ex(val[2][0], env)))
+        if m == "remove" and len(args) == 1:
+            rc, key, field, kind = self.rec_key(lv, args[0], env, what)
+            return self.set(env, lv + "." + field, (T_opt(rc["kinds"][kind]), "None"))
+        if m == "clear" and not args:
+            # every key the map can hold is one of the record's keys (typed-record invariant)
+            rc = self.record_of(self.get(env, lv)[0])
+            env2 = env
+            for _key, (field, kind) in sorted(rc["keys"].items()):
+                env2 = self.set(env2, lv + "." + field, (T_opt(rc["kinds"][kind]), "None"))
+            return env2
+        raise Rs2vError("method %s" % what)
+
+    def is_unit_effect(self, e, env):
+        if e[0] == "mcall" and e[2] in ("insert", "remove", "clear") and self.rec_place(e[1], env) is not None:
+            return True
+        return super().is_unit_effect(e, env)
+
+    def effect(self, e, env, cont, ctx):
+        if e[0] == "mcall" and e[2] in ("insert", "remove", "clear", "retain") and self.rec_place(e[1], env) is not None:
+            return self.hoist_all(e[3], env, ctx, lambda a2, env2: cont(
+                self.rec_effect(self.rec_place(e[1], env2), e[2], a2, env2)))
+        if self.inline_cfg(e) is not None:
+            # a helper called for its effect only
+            return self.hoist_calls(e, env, ctx, lambda _e2, env2: cont({x: env2[x] for x in env}))
+        return super().effect(e, env, cont, ctx)
+
+    def rec_get(self, scrut, env):
+        s = self.strip(scrut)
+        if s[0] == "mcall" and s[2] == "get" and len(s[3]) == 1:
+            lv = self.rec_place(s[1], env)
+            if lv is not None:
+                return lv, s[3][0]
+        return None
+
+    def variant_var(self, scrut, env):
+        s = self.strip(scrut)
+        if s[0] == "path" and len(s[1]) == 1 and s[1][0] in env:
+            t = env[s[1][0]][0]
+            if isinstance(t, tuple) and t[0] == "variant":
+                return s[1][0]
+        return None
+
+    def rec_get_match(self, lv, keyexp, some_var, some_body, none_body, env, k, ctx):
+        rc, key, field, kind = self.rec_key(lv, keyexp, env, "%s.get" % lv)
+        fl = lv + "." + field
+        t, cur = self.get(env, fl)
+        self.plain(cur, fl)
+        vt = T_variant(rc["enum"], kind)
+
+        def some_env(env_, term):
+            env2 = dict(env_)
+            if some_var:
+                env2[some_var] = (vt, term)
+            return env2
+        inner = some_inner(cur)
+        if inner is not None:
+            return self.arm(some_body, some_env(env, inner), k, ctx)
+        if cur == "None":
+            return self.arm(none_body, env, k, ctx)
+        # reading does not change the symbolic state: the field keeps its term in both arms (a later `get` of the same
+        # key matches on it again), so that a function that only reads returns the state it was given
+        v = self.newvar(some_var or field)
+        return "match %s with\n| Some %s =>\n%s\n| None =>\n%s\nend" % (
+            cur, v, self.arm(some_body, some_env(env, v), k, ctx), self.arm(none_body, env, k, ctx))
+
+    def variant_match(self, var, arms, env, k, ctx):
+        """arms: [(pattern, body)]; the arm of the variant the model keeps for this key, else the `_` arm"""
+        (_tag, enum, kind), term = env[var]
+        rc = None
+        for r in self.cfg.get("records", {}).values():
+            if r["enum"] == enum:
+                rc = r
+        chosen = None
+        for pat, body in arms:
+            if pat == ("wild",):
+                if chosen is None:
+                    chosen = (None, body)
+                break
+            if pat[0] != "ctor" or len(pat[1]) != 2 or pat[1][0] != enum or len(pat[2]) > 1:
+                raise Rs2vError("match pattern %r on a %s" % (pat, enum))
+            if pat[1][1] == kind and chosen is None:
+                chosen = (pat[2][0] if pat[2] else None, body)
+        if chosen is None:
+            raise Rs2vError("no arm for %s::%s" % (enum, kind))
+        env2 = dict(env)
+        if chosen[0]:
+            env2[chosen[0]] = (rc["kinds"][kind], term)
+        return self.arm(chosen[1], env2, k, ctx)
+
+    def match_(self, e, env, k, ctx):
+        scrut, arms = e[1], e[2]
+        g = self.rec_get(scrut, env)
+        if g is not None:
+            some, none = None, None
+            for pat, body in arms:
+                if pat[0] == "ctor" and pat[1] == ["Some"] and len(pat[2]) == 1 and some is None:
+                    some = (pat[2][0], body)
+                elif (pat == ("wild",) or (pat[0] == "ctor" and pat[1] == ["None"] and not pat[2])) and none is None:
+                    none = body
+                else:
+                    raise Rs2vError("match pattern %r on the result of get" % (pat,))
+            if some is None or none is None:
+                raise Rs2vError("match on the result of get: arms %r" % ([p for p, _b in arms],))
+            return self.rec_get_match(g[0], g[1], some[0], some[1], none, env, k, ctx)
+        var = self.variant_var(scrut, env)
+        if var is not None:
+            return self.variant_match(var, arms, env, k, ctx)
+        if self.has_inline(scrut):
+            return self.hoist_calls(scrut, env, ctx, lambda s2, env2: FnState.match_(self, ("match", s2, arms), env2, k, ctx))
+        return super().match_(e, env, k, ctx)
+
+    def iflet2(self, e, env, k, ctx):
+        pat, scrut, blk, els = e[1], e[2], e[3], e[4]
+        els = els if els is not None else ("block", [], None)
+        g = self.rec_get(scrut, env)
+        if g is not None:
+            if not (pat[0] == "ctor" and pat[1] == ["Some"] and len(pat[2]) == 1):
+                raise Rs2vError("if let pattern %r on the result of get" % (pat,))
+            return self.rec_get_match(g[0], g[1], pat[2][0], blk, els, env, k, ctx)
+        var = self.variant_var(scrut, env)
+        if var is not None:
+            return self.variant_match(var, [(pat, blk), (("wild",), els)], env, k, ctx)
+        return super().iflet2(e, env, k, ctx)
+
+    # ---- results
+    def result(self, e, env, ctx):
+        if ctx.get("inline"):
+            raise Rs2vError("%s: the function result inside an inlined helper" % ctx["inline"])
+        f = self.cfg.get("result")
+        if not f:
+            raise Rs2vError("no result builder configured")
+
+        def fin(e2, env2):
+            v = f(self, e2, env2, ctx)
+            return "LRet %s" % v if ctx.get("loop") else v
+        return self.hoist_all(e, env, ctx, fin)
+
+
+# =================================================================================================
+# Third wave, builder B12 (client: lib/gen/condslice_gen.py, eval_condition_for_slice / eval_condition of
+# duckscript_sdk/src/utils/condition.rs).  Purely additive: nothing above this line is changed; the classes below
+# extend P2 / Fn2.
+#
+#   PIdx   parser:   range indexing `v[a..b]`, `v[..]`, `v[a..]`, `v[..b]` (-> ("index", v, ("range", a|None, b|None)));
+#                    the type annotation of a `let` is KEPT (("let", name, e, annotation text)) so that the executor can
+#                    refuse an annotation that contradicts the configured type of the local.
+#   FnIdx  executor: * `&v[a..b]` on a Vec / slice is hoisted into `match slice v a b with None => <panic> | Some w => ..`
+#                      (explicit unwinding unless a <= b <= len), wherever it occurs: call argument, match scrutinee, let;
+#                    * integer locals with a MODELLED OVERFLOW (cfg int_overflow: type -> spelling of the function that
+#                      turns the mathematical result into `Some wrapped-or-exact` / `None` = panic): `x = x + n`,
+#                      `x = x - n`, `x += n`, `x -= n` become a match on that function; arithmetic on such a type in
+#                      any other position is refused (it would silently be unbounded);
+#                    * unit enums (cfg enums; the variant list is read from the source with read_enum): values, `match`
+#                      in statement / tail position, `_` arms are expanded per constructor, the matched variable is
+#                      refined inside each arm;
+#                    * `match CALL(..) { A(x) => .., B(y) => .., _ => .. }` on a callee whose model result type is given
+#                      by cfg res_shapes: one Coq arm per MODEL constructor; a model constructor may bind the Rust
+#                      pattern variables, stand for "every Rust variant not named in the shape" (needs a `_` arm),
+#                      be a panic, or be an outcome of the model only (fuel) that is returned as it is;
+#                    * Option<bool>-style values: `unwrap_or(d)`, `is_none / is_some` (spellings from cfg spell);
+#                    * `for x in list` over a Vec / slice parameter: the body becomes a definition
+#                      state -> item -> step, the state is packed into the configured record, `return e` inside the body
+#                      is the step constructor cfg step.ret; `return Ok(..)` is allowed inside the loop;
+#                    * error values: `"text".to_string()`, `format!("text {}", pure expr).to_string()` are mapped to
+#                      the model's error codes by cfg err_texts (an unknown text is refused);
+#                    * pure callees (cfg pure_helpers) in expression position;
+#                    * assignments whose right-hand side has another type than the variable are refused.
+#   Everything not understood raises Rs2vError.
+class PIdx(P2):
+    def postfix(self, e):
+        while True:
+            if self.opt("op", "("):
+                e = ("call", e, self.args(")"))
+            elif self.opt("op", "["):
+                arith = self.PREC.index(("..",)) + 1
+                lo = None if self.at("op", "..") else self.expr(arith)
+                if self.opt("op", ".."):
+                    hi = None if self.at("op", "]") else self.expr(arith)
+                    self.eat("op", "]")
+                    e = ("index", e, ("range", lo, hi))
+                else:
+                    self.eat("op", "]")
+                    e = ("index", e, lo)
+            elif self.at("op", ".") and self.peek(1)[0] == "id":
+                self.i += 1
+                n = self.eat("id")
+                if self.opt("op", "("):
+                    e = ("mcall", e, n, self.args(")"))
+                else:
+                    e = ("field", e, n)
+            else:
+                return e
+
+    def stmt(self):
+        if self.at("id", "let") and self.peek(1) != ("op", "("):
+            self.i += 1
+            self.opt("id", "mut")
+            name = self.eat("id")
+            ann = None
+            if self.opt("op", ":"):
+                j = self.i
+                self.skip_type()
+                ann = "".join(str(t[1]) for t in self.t[j:self.i])
+            self.eat("op", "=")
+            e = self.expr()
+            self.eat("op", ";")
+            return ("let", name, e, ann)
+        return super().stmt()
+
+
+def parse_fn_idx(src, name):
+    """like parse_fn2, with the PIdx grammar"""
+    m = re.search(r"(?:pub(?:\([a-z]+\))?\s+)?fn\s+%s\s*\(" % re.escape(name), src)
+    if not m:
+        raise Rs2vError("fn %s not found" % name)
+    p = PIdx(lex(src[m.start():], stop_after_item=True))
+    n, params, body = p.fn()
+    return params, body
+
+
+def read_enum(src, name):
+    """variant names of the unit-only `enum NAME { A, B, .. }`"""
+    m = re.search(r"\benum\s+%s\s*\{(.*?)\}" % re.escape(name), src, re.S)
+    if not m:
+        raise Rs2vError("enum %s not found" % name)
+    body = re.sub(r"//[^\n]*", "", m.group(1))
+    out = []
+    for part in body.split(","):
+        part = part.strip()
+        if not part:
+            continue
+        if not re.fullmatch(r"[A-Za-z_][A-Za-z0-9_]*", part):
+            raise Rs2vError("enum %s: variant %r is not a unit variant" % (name, part))
+        out.append(part)
+    return out
+
+
+IDX_SPELL = {"is_none": "(opt_is_none %s)", "is_some": "(opt_is_some %s)", "is_empty": "(list_is_empty %s)",
+             "unwrap_or": "(match %s with Some unwrap_or_v => unwrap_or_v | None => %s end)", "slice": "slice %s %s %s"}
+
+
+class FnIdx(Fn2):
+    """cfg keys in addition to Fn2's:
+      enums         {Rust enum name: {variant: coq constructor}}        unit enums (the enum name is also the type)
+      int_overflow  {type: fmt}     fmt % mathematical-result-term : option of the type; None = the operation panics
+      annot         {local: [acceptable Rust type texts]}               checked when the `let` carries an annotation
+      spell         spellings (see IDX_SPELL)
+      pure_helpers  {rust fn path: {"term": f(fn, args, env) -> term, "ret": type}}
+      calls         {rust fn path: {"call": f(fn, args, env) -> term, "res": key of res_shapes, "tail": bool}}
+      res_shapes    {key: [model constructor, ..]}; a model constructor is a dict
+                      {"coq": C, "rust": "Ok", "binds": [type | ("fixed", type, term)]}   arm for the Rust pattern Ok(..)
+                      {"coq": C, "kind": "rest"}                      every Rust variant the shape does not name (`_` arm)
+                      {"coq": C, "kind": "panic"}                     the callee unwinds
+                      {"coq": C, "kind": "ret", "term": T}            model-only outcome, returned as T
+      err_texts     {error text / format string: model error payload term}
+      loop          for `for x in list`: {"kind": "list", "state": [names], "state_type": T, "pack": fmt, "driver": name,
+                                          "item_coq": coq type of the item, "body_params": [], "body_param_types": {}}
+      step          needs "ret": fmt over a function result (the early `return` of a loop body)
+    """
+
+    def sp(self, key):
+        return self.cfg.get("spell", {}).get(key, IDX_SPELL[key])
+
+    def enum_of(self, e):
+        """(enum, variant) when e is the path Enum::Variant of a configured enum"""
+        if e[0] == "path" and len(e[1]) == 2 and e[1][0] in self.cfg.get("enums", {}):
+            if e[1][1] not in self.cfg["enums"][e[1][0]]:
+                raise Rs2vError("enum %s has no model constructor for %s" % (e[1][0], e[1][1]))
+            return e[1][0], e[1][1]
+        return None
+
+    def call_cfg(self, path):
+        cs = self.cfg.get("calls", {})
+        return cs.get("::".join(path))
+
+    def is_list(self, t):
+        return isinstance(t, tuple) and t[0] == "list"
+
+    def is_opt(self, t):
+        return isinstance(t, tuple) and t[0] == "option"
+
+    # ---- types
+    def type_of(self, e, env):
+        k = e[0]
+        ev = self.enum_of(e)
+        if ev:
+            return ev[0]
+        if k == "mcall" and e[2] == "unwrap_or" and len(e[3]) == 1:
+            t = self.type_of(e[1], env)
+            if not self.is_opt(t):
+                raise Rs2vError("unwrap_or on %s" % (t,))
+            return t[1]
+        if k == "call" and e[1][0] == "path":
+            ph = self.cfg.get("pure_helpers", {}).get("::".join(e[1][1]))
+            if ph:
+                return ph["ret"]
+        return super().type_of(e, env)
+
+    # ---- pure expressions
+    def ex(self, e, env):
+        k = e[0]
+        ev = self.enum_of(e)
+        if ev:
+            return self.cfg["enums"][ev[0]][ev[1]]
+        if k == "bin" and e[1] in ("+", "-", "*"):
+            for side in (e[2], e[3]):
+                if side[0] != "num" and self.type_of(side, env) in self.cfg.get("int_overflow", {}):
+                    raise Rs2vError("arithmetic on an overflow-modelled integer outside `x = x +/- n`")
+        if k == "mcall":
+            recv, m, args = e[1], e[2], e[3]
+            if m in ("is_some", "is_none") and not args:
+                t = self.type_of(recv, env)
+                if not self.is_opt(t):
+                    raise Rs2vError("%s on %s" % (m, t))
+                return self.sp(m) % self.ex(recv, env)
+            if m == "is_empty" and not args and self.is_list(self.type_of(recv, env)):
+                return self.sp("is_empty") % self.ex(recv, env)
+            if m == "unwrap_or" and len(args) == 1:
+                t = self.type_of(recv, env)
+                if not self.is_opt(t):
+                    raise Rs2vError("unwrap_or on %s" % (t,))
+                d = self.num(args[0], t[1], env)
+                if args[0][0] != "num" and self.type_of(args[0], env) != t[1]:
+                    raise Rs2vError("unwrap_or default of type %s" % (self.type_of(args[0], env),))
+                term = self.ex(recv, env)
+                inner = some_inner(term)
+                if inner is not None:
+                    return inner
+                if term == "None":
+                    return d
+                return self.sp("unwrap_or") % (term, d)
+        if k == "call" and e[1][0] == "path":
+            ph = self.cfg.get("pure_helpers", {}).get("::".join(e[1][1]))
+            if ph:
+                return ph["term"](self, e[2], env)
+        return super().ex(e, env)
+
+    # ---- `&v[a..b]`
+    def hoist(self, e, env, ctx, k, hint="x"):
+        pend = []
+
+        def walk(n, guarded):
+            if isinstance(n, list):
+                return [walk(x, guarded) for x in n]
+            if not isinstance(n, tuple) or not n:
+                return n
+            if n[0] in ("if", "iflet", "match", "block", "char", "str", "num", "bool", "path", "macro"):
+                return n
+            if n[0] == "index" and isinstance(n[2], tuple) and n[2] and (
+                    n[2][0] == "range" or (n[2][0] == "bin" and n[2][1] == "..")):
+                if guarded:
+                    raise Rs2vError("v[a..b] on the right of a short-circuit operator")
+                lo, hi = (n[2][1], n[2][2]) if n[2][0] == "range" else (n[2][2], n[2][3])
+                self._h += 1
+                tmp = "%%s%d" % self._h
+                pend.append((tmp, n[1], lo, hi))
+                return ("path", [tmp])
+            if n[0] == "bin" and n[1] in ("&&", "||"):
+                return ("bin", n[1], walk(n[2], guarded), walk(n[3], True))
+            if n[0] == "struct":
+                return ("struct", n[1], [(f, walk(x, guarded)) for f, x in n[2]])
+            return tuple(walk(x, guarded) if isinstance(x, (tuple, list)) else x for x in n)
+
+        e2 = walk(e, False)
+        if not pend:
+            return super().hoist(e, env, ctx, k, hint)
+
+        def bound(x, env_):
+            if x[0] != "num" and self.type_of(x, env_) != Ty.NAT:
+                raise Rs2vError("range bound of type %s" % (self.type_of(x, env_),))
+            return self.num(x, Ty.NAT, env_)
+
+        def bindall(i, env_):
+            if i == len(pend):
+                return super(FnIdx, self).hoist(e2, env_, ctx, k, hint)
+            tmp, base, lo, hi = pend[i]
+            bt = self.type_of(base, env_)
+            if not self.is_list(bt):
+                raise Rs2vError("range index into %s" % (bt,))
+            bterm = self.ex(base, env_)            # bounds and base must be pure (no nested partial operation)
+            lot = bound(lo, env_) if lo is not None else "0%nat"
+            hit = bound(hi, env_) if hi is not None else "(length %s)" % bterm
+            v = self.newvar(hint)
+            env2 = dict(env_)
+            env2[tmp] = (bt, v)
+            return "match %s with\n| None => %s\n| Some %s =>\n%s\nend" % (
+                self.sp("slice") % (bterm, lot, hit), self.panic_term(ctx), v, bindall(i + 1, env2))
+        return bindall(0, env)
+
+    # ---- outcomes
+    def ret_term(self, term, ctx):
+        if ctx.get("loop"):
+            r = self.cfg["step"].get("ret")
+            if not r:
+                raise Rs2vError("return inside the loop is not expressible here")
+            return r % term
+        return term
+
+    def fail_term(self, payload, ctx):
+        if ctx.get("loop") and not self.cfg["step"].get("fail"):
+            return self.ret_term(self.cfg["res"]["err"] % payload, ctx)
+        return super().fail_term(payload, ctx)
+
+    def err_payload(self, x, env):
+        y = x
+        while y[0] == "mcall" and y[2] in ("to_string", "to_owned", "clone") and not y[3]:
+            y = y[1]
+        texts = self.cfg.get("err_texts")
+        if texts is not None:
+            key = None
+            if y[0] == "str":
+                key = y[1]
+            elif y[0] == "macro" and y[1] == "format" and y[2] and y[2][0][0] == "str":
+                key = y[2][0][1]
+                if key.count("{}") != len(y[2]) - 1 or key.count("{") != key.count("{}"):
+                    raise Rs2vError("format string %r" % key)
+                for a in y[2][1:]:
+                    self.ex(a, env)                 # the interpolated values must be pure expressions
+            if key is not None:
+                if key not in texts:
+                    raise Rs2vError("error text %r has no model error code" % key)
+                return texts[key]
+        if y[0] == "path" and len(y[1]) == 1 and y[1][0] in env and env[y[1][0]][0] == "error":
+            return env[y[1][0]][1]
+        return super().err_payload(x, env)
+
+    def result(self, e, env, ctx):
+        if e[0] == "call" and e[1][0] == "path":
+            name = "::".join(e[1][1])
+            if name == "Ok" and len(e[2]) == 1 and ctx.get("loop"):
+                return self.hoist(e[2][0], env, ctx,
+                                  lambda x2, env2: self.ret_term(self.cfg["res"]["ok"] % self.ex(x2, env2), ctx))
+            h = self.call_cfg(e[1][1])
+            if h and h.get("tail") and not ctx.get("loop"):
+                return self.hoist(e[2], env, ctx, lambda a2, env2: h["call"](self, a2, env2))
+        return super().result(e, env, ctx)
+
+    # ---- statements
+    def stmt(self, s, env, cont, ctx):
+        if s[0] == "let" and len(s) > 3 and s[3] is not None:
+            ok = self.cfg.get("annot", {}).get(s[1])
+            if ok is None or s[3] not in ok:
+                raise Rs2vError("local %s is annotated %s" % (s[1], s[3]))
+        if s[0] == "let" and s[1] in env:
+            raise Rs2vError("local %s declared twice / shadows a parameter" % s[1])
+        return super().stmt(s, env, cont, ctx)
+
+    def int_arith(self, rhs, t, env):
+        """(sign, a, b) when rhs is `A + B` / `A - B` over operands that are literals or pure values of type t"""
+        if rhs[0] != "bin" or rhs[1] not in ("+", "-"):
+            return None
+        out = []
+        for side in (rhs[2], rhs[3]):
+            if side[0] == "num":
+                out.append(self.num(side, t, env))
+            else:
+                lv = self.lvalue(side)
+                if lv is None or not self.has(env, lv) or self.get(env, lv)[0] != t:
+                    raise Rs2vError("operand of an overflow-modelled operation is not a variable of the same type")
+                out.append(self.plain(self.get(env, lv)[1], lv))
+        return rhs[1], out[0], out[1]
+
+    def assign(self, s, env, cont, ctx):
+        lhs, op, rhs = s[1], s[2], s[3]
+        lv = self.lvalue(lhs)
+        if lv is not None and self.has(env, lv):
+            t, cur = self.get(env, lv)
+            ov = self.cfg.get("int_overflow", {})
+            if t in ov and not isinstance(cur, dict):
+                ar = None
+                if op in ("+=", "-=") and rhs[0] == "num":
+                    ar = (op[0], self.plain(cur, lv), self.num(rhs, t, env))
+                elif op == "=":
+                    ar = self.int_arith(rhs, t, env)
+                elif op != "=":
+                    raise Rs2vError("assignment %s %s" % (lv, op))
+                if ar is not None:
+                    scope = {Ty.INT_Z: "Z", Ty.NAT: "nat", Ty.NUM_N: "N"}.get(t)
+                    if scope is None:
+                        raise Rs2vError("overflow model on %s" % (t,))
+                    v = self.newvar(lv)
+                    z = "(%s %s %s)%%%s" % (ar[1], ar[0], ar[2], scope)
+                    return "match %s with\n| None => %s\n| Some %s =>\n%s\nend" % (
+                        ov[t] % z, self.panic_term(ctx), v, cont(self.set(env, lv, (t, v))))
+            if op == "=" and rhs[0] not in ("num", "match"):
+                try:
+                    vt = self.type_of(rhs, env)
+                except Rs2vError:
+                    vt = None
+                if vt is not None and vt != t and not (self.is_opt(vt) and vt[1] is None and self.is_opt(t)):
+                    raise Rs2vError("assignment of a %s to %s : %s" % (vt, lv, t))
+        return super().assign(s, env, cont, ctx)
+
+    # ---- match
+    def classify_arms(self, arms):
+        named, wild = {}, None
+        for pat, body in arms:
+            if wild is not None:
+                raise Rs2vError("match arm after `_`")
+            if pat[0] == "wild":
+                wild = body
+            elif pat[0] == "ctor":
+                name = "::".join(pat[1])
+                if name in named:
+                    raise Rs2vError("match arm %s twice" % name)
+                named[name] = (pat[2], body)
+            else:
+                raise Rs2vError("match pattern %r" % (pat,))
+        return named, wild
+
+    def match_(self, e, env, k, ctx):
+        scrut, arms = e[1], e[2]
+        s = scrut
+        while s[0] in ("ref", "refmut"):
+            s = s[1]
+        if s[0] == "call" and s[1][0] == "path":
+            h = self.call_cfg(s[1][1])
+            if h and h.get("res") in self.cfg.get("res_shapes", {}):
+                return self.hoist(s[2], env, ctx,
+                                  lambda a2, env2: self.match_call(h, a2, arms, env2, k, ctx), hint="x")
+        else:
+            lv = self.lvalue(s)
+            if lv is not None and self.has(env, lv) and self.get(env, lv)[0] in self.cfg.get("enums", {}):
+                return self.match_enum(s, arms, env, k, ctx)
+        return super().match_(e, env, k, ctx)
+
+    def match_call(self, h, args, arms, env, k, ctx):
+        shape = self.cfg["res_shapes"][h["res"]]
+        named, wild = self.classify_arms(arms)
+        known = set(c["rust"] for c in shape if c.get("rust"))
+        for name in named:
+            if name not in known:
+                raise Rs2vError("match arm %s has no model constructor" % name)
+        out = ["match %s with" % h["call"](self, args, env)]
+        for c in shape:
+            kind = c.get("kind", "arm")
+            if kind == "panic":
+                out.append("| %s => %s" % (c["coq"], self.panic_term(ctx)))
+            elif kind == "ret":
+                out.append("| %s => %s" % (c["coq"], self.ret_term(c["term"], ctx)))
+            elif kind == "rest":
+                if wild is None:
+                    raise Rs2vError("the match names every variant it handles; the model constructor %s needs a `_` arm" % c["coq"])
+                out += ["| %s =>" % c["coq"], self.arm(wild, dict(env), k, ctx)]
+            elif c["rust"] in named:
+                subs, body = named[c["rust"]]
+                if len(subs) != len(c["binds"]):
+                    raise Rs2vError("pattern %s with %d fields" % (c["rust"], len(subs)))
+                vs, env2 = [], dict(env)
+                for sub, b in zip(subs, c["binds"]):
+                    if sub and sub in env:
+                        raise Rs2vError("pattern variable %s shadows a local" % sub)
+                    if isinstance(b, tuple) and b and b[0] == "fixed":
+                        if sub:
+                            env2[sub] = (b[1], b[2])
+                        continue
+                    v = self.newvar(sub or "w")
+                    vs.append(v)
+                    if sub:
+                        env2[sub] = (b, v)
+                out += ["| %s =>" % " ".join([c["coq"]] + vs), self.arm(body, env2, k, ctx)]
+            elif wild is not None:
+                n = sum(1 for b in c["binds"] if not (isinstance(b, tuple) and b and b[0] == "fixed"))
+                out += ["| %s =>" % " ".join([c["coq"]] + ["_"] * n), self.arm(wild, dict(env), k, ctx)]
+            else:
+                raise Rs2vError("no match arm for %s" % c["rust"])
+        out.append("end")
+        return "\n".join(out)
+
+    def match_enum(self, s, arms, env, k, ctx):
+        lv = self.lvalue(s)
+        t, term = self.get(env, lv)
+        self.plain(term, lv)
+        variants = self.cfg["enums"][t]
+        named, wild = self.classify_arms(arms)
+        for name, (subs, _b) in named.items():
+            parts = name.split("::")
+            if len(parts) != 2 or parts[0] != t or parts[1] not in variants or subs:
+                raise Rs2vError("match arm %s on the enum %s" % (name, t))
+
+        def run_arm(v):
+            key = "%s::%s" % (t, v)
+            body = named[key][1] if key in named else wild
+            if body is None:
+                raise Rs2vError("no match arm for %s" % key)
+            return self.arm(body, self.set(env, lv, (t, variants[v])), k, ctx)
+        for v, c in variants.items():
+            if term == c:
+                return run_arm(v)
+        out = ["match %s with" % term]
+        for v, c in variants.items():
+            out += ["| %s =>" % c, run_arm(v)]
+        out.append("end")
+        return "\n".join(out)
+
+    # ---- `for x in list`
+    def loop2(self, s, env, cont, ctx):
+        lc = self.cfg.get("loop")
+        if s[0] == "for" and lc and lc.get("kind") == "list":
+            return self.loop_list(s, env, cont, ctx)
+        return super().loop2(s, env, cont, ctx)
+
+    def loop_list(self, s, env, cont, ctx):
+        if ctx.get("loop"):
+            raise Rs2vError("nested loop")
+        if self.loops:
+            raise Rs2vError("more than one loop")
+        lc = self.cfg["loop"]
+        pat, it, body = s[1], s[2], s[3]
+        src = it
+        while src[0] in ("ref",) or (src[0] == "mcall" and src[2] == "iter" and not src[3]):
+            src = src[1]
+        slv = self.lvalue(src)
+        if slv is None or not self.has(env, slv) or not self.is_list(self.get(env, slv)[0]):
+            raise Rs2vError("loop iterator %r" % (it,))
+        et = self.get(env, slv)[0][1]
+        lterm = self.plain(self.ex(src, env), slv)
+        if pat in env:
+            raise Rs2vError("loop variable %s shadows a local" % pat)
+        state = lc["state"]
+        for n in state:
+            if not self.has(env, n) or isinstance(self.get(env, n)[1], dict):
+                raise Rs2vError("loop state variable %s is not in scope" % n)
+        if slv in state:
+            raise Rs2vError("the loop iterates over its own state")
+        for a in sorted(self.assigned_names(body)):
+            root = a.split(".")[0]
+            if a == "?":
+                raise Rs2vError("the loop assigns to something that is not a variable")
+            if root in env and not any(a == n or a.startswith(n + ".") for n in state):
+                raise Rs2vError("the loop assigns %s, which is not part of the configured state (%s)" % (a, ", ".join(state)))
+        bp = dict(lc.get("body_params", []))
+
+        def close(dotted, tv):
+            t, term = tv
+            if isinstance(term, dict):
+                return (t, {f: close(dotted + "." + f, x) for f, x in term.items()})
+            if dotted in bp:
+                return (t, bp[dotted])
+            return (t, term if (term != POISON and self.is_closed(term)) else POISON)
+        benv = {n: close(n, tv) for n, tv in env.items()}
+        svars = []
+        for n in state:
+            v = self.newvar(n)
+            svars.append(v)
+            benv = self.set(benv, n, (self.get(env, n)[0], v))
+        name = "%s_body" % self.cfg["coq_name"]
+        call = "(%s%s%s)" % (name, (" " + self.cfg["fn_args"]) if self.cfg.get("fn_args") else "",
+                             "".join(" " + self.plain(self.ex(self.field_path(n), env), n) for n, _c in lc.get("body_params", [])))
+        fmt = lc.get("pack")
+
+        def pack(env_):
+            ts = [self.plain(self.get(env_, n)[1], n) for n in state]
+            if fmt:
+                return fmt % tuple(ts)
+            return ts[0] if len(ts) == 1 else "(" + ", ".join(ts) + ")"
+        item = self.newvar(pat)
+        benv[pat] = (et, item)
+        stp = self.cfg["step"]
+        self._pack = pack
+        body_term = self.run(body[1], body[2], benv, lambda env2, v=None: stp["cont"] % pack(env2), {"loop": True})
+        self._pack = None
+        if POISON in body_term:
+            raise Rs2vError("the loop body uses a local of the enclosing function that is not one of its parameters")
+        spat = (fmt % tuple(svars)) if fmt else (svars[0] if len(svars) == 1 else "(" + ", ".join(svars) + ")")
+        self.loops.append((name, "Definition %s%s%s (st : %s) (%s : %s) : %s :=\nmatch st with\n| %s =>\n%s\nend.\n" % (
+            name, (" " + self.cfg["fn_params"]) if self.cfg.get("fn_params") else "",
+            "".join(" (%s : %s)" % (c, lc["body_param_types"][c]) for _n, c in lc.get("body_params", [])),
+            lc["state_type"], item, lc["item_coq"], stp["type"], spat, body_term)))
+        avars = [self.newvar(n) for n in state]
+        env_after = env
+        for n, v in zip(state, avars):
+            env_after = self.set(env_after, n, (self.get(env, n)[0], v))
+        apat = (fmt % tuple(avars)) if fmt else (avars[0] if len(avars) == 1 else "(" + ", ".join(avars) + ")")
+        drive = "%s %s %s %s" % (lc["driver"], call, lterm, pack(env))
+        return self.cfg["res"]["consume"] % {"drive": drive, "pat": apat, "after": cont(env_after)}
+
+
+# =================================================================================================
+# Third wave (builder B10; first client: lib/gen/runner_gen.py, the fetch/execute loop of duckscript/src/runner.rs).
+# Purely additive: nothing above this line is changed; P3 / FnR extend P2 / Fn2.
+#
+#   P3    parser:   method calls with a turbofish (`s.parse::<i32>()`, recorded as method `parse::<i32>`)
+#   FnR   executor for functions that thread a WORLD (a set of `&mut` places the configuration maps to one model
+#         value) through calls of other functions and of opaque objects, and whose result is a value of a sum type:
+#     * every expression is evaluated in continuation-passing style to a VALUE (type, term): blocks, `if`,
+#       `if let`, `match` may appear wherever a value is expected (`let (a, b) = if c { ..; (x, y) } else { break; };`,
+#       `let r = match e { A => v, B(ref s) => { x = ..; match .. } };`), arms may diverge (`break`, `return`);
+#     * `match` / `if let` on ANY configured sum type: Option, a Result seen as an option (`okopt`: Ok = Some, the error
+#       is not looked at; `erropt`: Result<(), E>, Err = Some), an Option whose presence is a boolean test of the model
+#       (`boolopt`), and enums with payloads given by cfg['enums']; unreachable `_` arms are dropped, a missing arm is an error;
+#     * calls with effects are given by configuration handlers (cfg['calls'] for functions, cfg['mcalls'] for methods):
+#       a handler checks the Rust arguments (which place is passed where) and returns the model call, the `let`s
+#       to emit, the environment afterwards (world, ghost components) and the value; the executor never guesses an effect;
+#     * lexical scoping with shadowing (`enter` / `declare` / `leave`): an inner `let x` / pattern variable hides an
+#       outer x until the block ends, assignments to outer variables survive the block;
+#     * structs held in ONE Coq variable (field access by projection, cfg['structs'][..]['proj']) besides Fn2's structs
+#       held field by field; tuples as component lists (destructuring costs nothing);
+#     * path refinement: Fn2's `is_some / is_none / unwrap`, and the BOUNDS TEST `if v.len() > i { A } else { B }`
+#       (also `i < v.len()` and the negated forms), translated to `match v !! i with Some x => A | None => B end` with
+#       `v[i]` inside A (same vector term, same index term) being x — `v.len() > i` holds exactly when `v.get(i)` is
+#       Some; any other `v[i]` would need a panic outcome and is refused;
+#     * constant folding of conditions over parameters the configuration fixes (`repl_mode` = false): the dead branch
+#       is not translated;
+#     * `loop { .. }` as a STEP function: the body becomes a definition from the loop state to `next state + final
+#       result`; `break` is the code that follows the loop, executed in the environment of the `break` (so what the
+#       function does after the loop is part of every breaking path); a mutable local that is assigned in the body but
+#       is not part of the configured state must be back at its entry value at every `continue` point (checked
+#       syntactically: it is then loop invariant), else the function is refused;
+#     * `for x in &v { .. }` without early exit as a fold: the body becomes a definition state -> item -> state;
+#       a `for x in l { v.push(x) }` whose body is that single push is `v ++ l` (no definition needed);
+#     * maps held in a variable / field: `m.get(&k)` is `m !! k`, `m.insert(k, v)` is `<[k := v]> m`, `m.remove(&k)` is
+#       `delete k m`, `m.contains_key(&k)` is `opt_is_some (m !! k)`; `continue`; `x + 1`, `x += 1` on usize are `S x`; `o.unwrap_or(d)` is `default d o`; `n.to_string()` on usize
+#       is cfg['nat_to_string'].
+#   Everything not understood raises Rs2vError.
+UNIT = ("unit", "tt")
+
+
+def T_okopt(t):
+    return ("okopt", t)
+
+
+def T_erropt(t):
+    return ("erropt", t)
+
+
+def T_boolopt(payload):
+    return ("boolopt", payload)
+
+
+def T_enum(n):
+    return ("enum", n)
+
+
+def T_map(k, v):
+    return ("map", k, v)
+
+
+class P3(P2):
+    def postfix(self, e):
+        while True:
+            if self.opt("op", "("):
+                e = ("call", e, self.args(")"))
+            elif self.opt("op", "["):
+                ix = self.expr()
+                self.eat("op", "]")
+                e = ("index", e, ix)
+            elif self.at("op", ".") and self.peek(1)[0] == "id":
+                self.i += 1
+                n = self.eat("id")
+                if self.at("op", "::") and self.peek(1) == ("op", "<"):
+                    self.i += 2
+                    depth, parts = 1, []
+                    while depth:
+                        a = self.peek()
+                        if a[0] == "eof":
+                            raise Rs2vError("eof in turbofish")
+                        if a == ("op", "<"):
+                            depth += 1
+                        elif a == ("op", ">"):
+                            depth -= 1
+                            if depth == 0:
+                                self.i += 1
+                                break
+                        parts.append(str(a[1]))
+                        self.i += 1
+                    n = "%s::<%s>" % (n, "".join(parts))
+                    self.eat("op", "(")
+                    e = ("mcall", e, n, self.args(")"))
+                elif self.opt("op", "("):
+                    e = ("mcall", e, n, self.args(")"))
+                else:
+                    e = ("field", e, n)
+            else:
+                return e
+
+
+def parse_fn3(src, name):
+    """like parse_fn2, with the P3 grammar"""
+    m = re.search(r"(?:pub(?:\([a-z]+\))?\s+)?fn\s+%s\s*\(" % re.escape(name), src)
+    if not m:
+        raise Rs2vError("fn %s not found" % name)
+    p = P3(lex(src[m.start():], stop_after_item=True))
+    n, params, body = p.fn()
+    return params, body
+
+
+def fold_bool(term):
+    """constant folding of the boolean terms the executor builds itself"""
+    m = re.match(r"^\(negb (true|false)\)$", term)
+    if m:
+        return "false" if m.group(1) == "true" else "true"
+    return term
+
+
+class FnR(Fn2):
+    """cfg keys (all function specific knowledge lives in the client):
+      params        {rust name: (type, term | field dict | component list)}; every parameter of the Rust function must be listed
+      env0          {ghost name ('%..'): value}            initial ghost components (world, logs ..)
+      locals        {rust name: type}                      declared types of `let x = None / 0 / vec![]`
+      structs       {Name: {"fields": [(f, type)], "proj": {f: fmt}}}   structs held in one Coq variable
+      enums         {Name: {rust path: (coq constructor, [payload types] | None)}}   None: the payload is not modelled
+      ctor_handlers {rust path: f(fn, args, env) -> (type, value)}      constructors in expression position
+      struct_handlers {rust path: f(fn, fields, env) -> (type, value)}
+      format        f(fn, format string, [argument values], env) -> (type, term)      `format!(..)`
+      pure_methods  {method: f(fn, recv expr, args, env) -> (type, value) | None}
+      calls         {rust fn path: f(fn, args, env, ctx) -> (lets, env2, value)}      lets: [(coq var, term)]
+      mcalls        {method: f(fn, recv expr, args, env, ctx) -> (lets, env2, value) | None}
+      bind_hook     f(fn, name, value, env) -> env2 | None     `let name = value` with a meaning of its own (a copy of a place)
+      assign_hook   f(fn, dotted lvalue, value, env) -> env2 | None
+      result        f(fn, value, env, ctx) -> coq term         the function's result for `return e` / the tail value
+      nat_to_string fmt
+      loop          {"kind": "step", "name", "binders", "type", "entry": f(fn, env) -> env, "cont": f(fn, env) -> term,
+                     "state": [dotted names], "drive": f(fn, env) -> term}
+                  | {"kind": "fold", "name", "binders", "args", "state": [dotted names], "state_type", "item": (type, coq type)}
+    """
+
+    def __init__(self, cfg):
+        cfg.setdefault("step", {"type": "", "cont": None, "brk": None, "fail": None, "panic": None})
+        cfg.setdefault("res", {"panic": None})
+        super().__init__(cfg)
+        self.defs = []
+        self.in_step = False
+
+    # ---- scopes ------------------------------------------------------------------------------------
+    def enter(self, env):
+        e = dict(env)
+        e["%decl"] = ("meta", frozenset())
+        e["%saved"] = ("meta", {})
+        return e
+
+    def declare(self, env, name, tv):
+        decl = env.get("%decl", ("meta", frozenset()))[1]
+        saved = env.get("%saved", ("meta", {}))[1]
+        env2 = dict(env)
+        if name in env and name not in decl:
+            saved = dict(saved)
+            saved[name] = env[name]
+        env2["%decl"] = ("meta", decl | {name})
+        env2["%saved"] = ("meta", saved)
+        env2[name] = tv
+        return env2
+
+    def leave(self, outer, inner):
+        saved = inner.get("%saved", ("meta", {}))[1]
+        decl = inner.get("%decl", ("meta", frozenset()))[1]
+        out = {}
+        for n, v in inner.items():
+            if n in ("%decl", "%saved", "%facts"):
+                continue
+            if n in saved:
+                out[n] = saved[n]
+            elif n in decl:
+                continue
+            else:
+                out[n] = v
+        for n in ("%decl", "%saved", "%facts"):
+            if n in outer:
+                out[n] = outer[n]
+        return out
+
+    # ---- values ------------------------------------------------------------------------------------
+    def term_of(self, tv, what="value"):
+        t, v = tv
+        if isinstance(v, dict):
+            return self.struct_term(t, v)
+        if isinstance(v, list):
+            return "(" + ", ".join(self.term_of(x, what) for x in v) + ")"
+        if not isinstance(v, str):
+            raise Rs2vError("%s of type %s has no Coq term" % (what, t))
+        return self.plain(v, what)
+
+    def strip(self, e):
+        while e[0] in ("ref", "refmut"):
+            e = e[1]
+        return e
+
+    def field_of(self, base, f):
+        t, v = base
+        if isinstance(v, dict):
+            if f not in v:
+                raise Rs2vError("no field %s" % f)
+            return v[f]
+        if is_struct(t) and isinstance(v, str):
+            sc = self.cfg.get("structs", {}).get(t[1])
+            if sc and f in sc["proj"]:
+                ft = dict(sc["fields"])[f]
+                return (ft, sc["proj"][f] % self.plain(v, f))
+        raise Rs2vError("field %s of a value of type %s" % (f, t))
+
+    def pv(self, e, env):
+        """pure value (type, term | dict | list) of an expression; anything with an effect is refused here"""
+        e = self.strip(e)
+        k = e[0]
+        if k == "mcall" and e[2] in ("clone", "to_owned") and not e[3]:
+            tv = self.pv(e[1], env)
+            h = self.cfg.get("clone_hook")
+            return h(self, tv) if h else tv
+        if k == "tuple":
+            vs = [self.pv(x, env) for x in e[1]]
+            if not vs:
+                return UNIT
+            return (T_tuple(*[v[0] for v in vs]), vs)
+        if k == "path":
+            if len(e[1]) == 1 and e[1][0] in env:
+                return env[e[1][0]]
+            name = "::".join(e[1])
+            if name == "None":
+                return (T_opt(None), "None")
+            st = self.cfg.get("statics", {}).get(name)
+            if st:
+                return (st[0], coq_char(st[1]) if st[0] == Ty.CHAR else coq_str_lit(st[1]))
+            h = self.cfg.get("ctor_handlers", {}).get(name)
+            if h:
+                return h(self, [], env)
+            raise Rs2vError("unknown name %s" % name)
+        if k == "field":
+            return self.field_of(self.pv(e[1], env), e[2])
+        if k == "bool":
+            return (Ty.BOOL, "true" if e[1] else "false")
+        if k == "str":
+            return (Ty.STR, coq_str_lit(e[1]))
+        if k == "char":
+            return (Ty.CHAR, coq_char(e[1]))
+        if k == "num":
+            return (None, e[1])
+        if k == "not":
+            return self.negate(self.pv(e[1], env))
+        if k == "call" and e[1][0] == "path":
+            name = "::".join(e[1][1])
+            if name == "Some" and len(e[2]) == 1:
+                tv = self.pv(e[2][0], env)
+                return (T_opt(tv[0]), "(Some %s)" % self.term_of(tv))
+            if name in ("Ok", "Err") and len(e[2]) == 1:
+                return (("result",), (name, self.pv(e[2][0], env)))
+            if name == "String::new" and not e[2]:
+                return (Ty.STR, "[]")
+            h = self.cfg.get("ctor_handlers", {}).get(name)
+            if h:
+                return h(self, e[2], env)
+            raise Rs2vError("call of %s in a pure position" % name)
+        if k == "struct":
+            h = self.cfg.get("struct_handlers", {}).get("::".join(e[1]))
+            if not h:
+                raise Rs2vError("struct literal %s" % "::".join(e[1]))
+            return h(self, e[2], env)
+        if k == "macro":
+            if e[1] == "vec":
+                vs = [self.pv(x, env) for x in e[2]]
+                ts = [v[0] for v in vs if v[0] is not None]
+                if any(t != ts[0] for t in ts):
+                    raise Rs2vError("vec! of several types %r" % (ts,))
+                return (T_list(ts[0] if ts else None), "[" + "; ".join(self.term_of(v) for v in vs) + "]")
+            if e[1] == "format" and e[2] and e[2][0][0] == "str" and self.cfg.get("format"):
+                return self.cfg["format"](self, e[2][0][1], [self.pv(x, env) for x in e[2][1:]], env)
+            raise Rs2vError("macro %s!" % e[1])
+        if k == "mcall":
+            recv, m, args = e[1], e[2], e[3]
+            h = self.cfg.get("pure_methods", {}).get(m)
+            if h:
+                r = h(self, recv, args, env)
+                if r is not None:
+                    return r
+            rt, rv = self.pv(recv, env)
+            if m == "to_string" and not args and rt is None and isinstance(rv, int):       # `0.to_string()`
+                return (Ty.STR, self.cfg["nat_to_string"] % ("%d%%nat" % rv))
+            if m == "contains_key" and len(args) == 1 and isinstance(rt, tuple) and rt[0] == "map":
+                kt, kv = self.pv(args[0], env)
+                if kt != rt[1]:
+                    raise Rs2vError("map key of type %s" % (kt,))
+                return (Ty.BOOL, "(opt_is_some (%s !! %s))" % (self.term_of((rt, rv)), self.term_of((kt, kv))))
+            if m == "to_string" and not args:
+                if rt == Ty.NAT:
+                    return (Ty.STR, self.cfg["nat_to_string"] % self.term_of((rt, rv)))
+                return (rt, rv)
+            if m == "unwrap_or" and len(args) == 1 and isinstance(rt, tuple) and rt[0] == "option":
+                d = self.pv(args[0], env)
+                dterm = self.num(args[0], rt[1], env) if d[0] is None else self.term_of(d)
+                return (rt[1], "(default %s %s)" % (dterm, self.term_of((rt, rv))))
+            if m == "unwrap" and not args and isinstance(rt, tuple) and rt[0] == "option":
+                inner = some_inner(rv) if isinstance(rv, str) else None
+                if inner is None:
+                    raise Rs2vError("unwrap in a position where it cannot be hoisted")
+                return (rt[1], inner)
+            if m in ("is_some", "is_none") and not args and isinstance(rt, tuple) and rt[0] == "option":
+                return (Ty.BOOL, "(opt_%s %s)" % (m, self.term_of((rt, rv))))
+            if m == "len" and not args and isinstance(rt, tuple) and rt[0] == "list":
+                return (Ty.NAT, "(length %s)" % self.term_of((rt, rv)))
+            if m == "is_empty" and not args and (rt == Ty.STR or (isinstance(rt, tuple) and rt[0] == "list")):
+                return (Ty.BOOL, "(list_is_empty %s)" % self.term_of((rt, rv)))
+            if m == "get" and len(args) == 1 and isinstance(rt, tuple) and rt[0] == "map":
+                kt, kv = self.pv(args[0], env)
+                if kt != rt[1]:
+                    raise Rs2vError("map key of type %s" % (kt,))
+                return (T_opt(rt[2]), "(%s !! %s)" % (self.term_of((rt, rv)), self.term_of((kt, kv))))
+            raise Rs2vError("method %s on a value of type %s" % (m, rt))
+        if k == "bin":
+            op, l, r = e[1], e[2], e[3]
+            if op == "+" and (r == ("num", 1) or l == ("num", 1)):
+                o = l if r == ("num", 1) else r
+                t, v = self.pv(o, env)
+                if t == Ty.NAT:
+                    return (Ty.NAT, "(S %s)" % self.term_of((t, v)))
+            if op in ("&&", "||"):
+                a, b = self.term_of(self.pv(l, env)), self.term_of(self.pv(r, env))
+                if op == "&&":
+                    if a == "false" or b == "false":
+                        return (Ty.BOOL, "false") if a == "false" else (Ty.BOOL, "(%s && false)" % a)
+                    if a == "true":
+                        return (Ty.BOOL, b)
+                    return (Ty.BOOL, a if b == "true" else "(%s && %s)" % (a, b))
+                if a == "true":
+                    return (Ty.BOOL, "true")
+                if a == "false":
+                    return (Ty.BOOL, b)
+                return (Ty.BOOL, a if b == "false" else "(%s || %s)" % (a, b))
+            return (Fn.type_of(self, e, env), Fn.ex(self, e, env))
+        if k == "index":
+            f = self.fact(e, env)
+            if f is not None:
+                return f
+            raise Rs2vError("v[i] without a bounds test the translator can use (a panic outcome is not expressible here)")
+        raise Rs2vError("expression %r in a pure position" % (k,))
+
+    def type_of(self, e, env):
+        return self.pv(e, env)[0]
+
+    def ex(self, e, env):
+        return self.term_of(self.pv(e, env))
+
+    def num(self, e, t, env):
+        if e[0] == "num":
+            return {Ty.NAT: "%d%%nat", Ty.NUM_N: "%d%%N", Ty.INT_Z: "%d%%Z", Ty.CHAR: "%d%%N"}.get(t, "%d") % e[1]
+        return self.ex(e, env)
+
+    # ---- facts established by bounds tests -------------------------------------------------------------
+    def fact(self, e, env):
+        facts = env.get("%facts", ("meta", {}))[1]
+        try:
+            vt, vv = self.pv(e[1], env)
+            key = (self.term_of((vt, vv)), self.num(e[2], Ty.NAT, env))
+        except Rs2vError:
+            return None
+        return facts.get(key)
+
+    def bounds_test(self, c, env):
+        """(list value, index term, True when the test says `in bounds`) for `v.len() > i`, `i < v.len()` and negations"""
+        pos = True
+        while c[0] == "not":
+            pos, c = not pos, c[1]
+        if c[0] != "bin" or c[1] not in ("<", ">", "<=", ">="):
+            return None
+        op, l, r = c[1], c[2], c[3]
+
+        def is_len(x):
+            x = self.strip(x)
+            if x[0] == "mcall" and x[2] == "len" and not x[3]:
+                try:
+                    tv = self.pv(x[1], env)
+                except Rs2vError:
+                    return None
+                if isinstance(tv[0], tuple) and tv[0][0] == "list" and isinstance(tv[1], str):
+                    return tv
+            return None
+        lv, rv = is_len(l), is_len(r)
+        if (lv is None) == (rv is None):
+            return None
+        # normalise to  len OP index
+        if lv is not None:
+            lst, ix, o = lv, r, op
+        else:
+            lst, ix, o = rv, l, {"<": ">", ">": "<", "<=": ">=", ">=": "<="}[op]
+        if o == ">":
+            inb = True
+        elif o == "<=":
+            inb = False
+        else:
+            return None
+        try:
+            it = self.pv(ix, env)
+            iterm = self.num(ix, Ty.NAT, env)
+        except Rs2vError:
+            return None
+        if it[0] not in (Ty.NAT, None):
+            return None
+        return lst, iterm, (inb if pos else not inb)
+
+    # ---- statements --------------------------------------------------------------------------------
+    def seq(self, stmts, tail, env, k, ctx):
+        if not stmts:
+            if tail is None:
+                return k(env, UNIT)
+            return self.comp(tail, env, k, ctx)
+        return self.stmt(stmts[0], env, lambda env2, _v=None: self.seq(stmts[1:], tail, env2, k, ctx), ctx)
+
+    def stmt(self, s, env, cont, ctx):
+        k = s[0]
+        if k == "let":
+            return self.bind(s[1], s[2], env, cont, ctx)
+        if k == "lettuple":
+            return self.bind_tuple(s[1], s[2], env, cont, ctx)
+        if k == "assign":
+            return self.assign(s, env, cont, ctx)
+        if k == "expr" and s[1] == ("path", ["continue"]):
+            if not ctx.get("cnt"):
+                raise Rs2vError("continue outside a loop the translator can continue")
+            return ctx["cnt"](env)
+        if k == "expr":
+            return self.comp(s[1], env, lambda env2, _tv: cont(env2), ctx)
+        if k == "break":
+            if not ctx.get("brk"):
+                raise Rs2vError("break outside a loop the translator can break out of")
+            return ctx["brk"](env)
+        if k == "return":
+            return self.ret(s[1], env, ctx)
+        if k in ("loop", "for"):
+            return self.loop3(s, env, cont, ctx)
+        raise Rs2vError("statement %r" % (k,))
+
+    def with_lets(self, lets, body):
+        return "".join("let %s := %s in\n" % (v, t) for v, t in (lets or [])) + body
+
+    def coerce(self, tv, declared_t, name):
+        t, v = tv
+        if t is None:                       # a number literal
+            if declared_t is None:
+                raise Rs2vError("type of local %s unknown" % name)
+            return (declared_t, {Ty.NAT: "%d%%nat", Ty.NUM_N: "%d%%N", Ty.INT_Z: "%d%%Z"}.get(declared_t, "%d") % v)
+        if isinstance(t, tuple) and t[0] in ("option", "list") and t[1] is None and declared_t is not None:
+            return (declared_t, v)
+        return tv
+
+    def bind(self, name, e, env, cont, ctx):
+        declared_t = self.cfg.get("locals", {}).get(name)
+
+        def k(env2, tv):
+            tv = self.coerce(tv, declared_t, name)
+            hook = self.cfg.get("bind_hook")
+            if hook:
+                r = hook(self, name, tv, env2)
+                if r is not None:
+                    return cont(r)
+            return cont(self.declare(env2, name, tv))
+        return self.comp(e, env, k, ctx)
+
+    def bind_tuple(self, names, e, env, cont, ctx):
+        def k(env2, tv):
+            t, v = tv
+            if not (isinstance(t, tuple) and t[0] == "tuple" and len(t[1]) == len(names)):
+                raise Rs2vError("let (%s) = a value of type %s" % (", ".join(names), t))
+            if isinstance(v, list):
+                env3 = env2
+                for n, x in zip(names, v):
+                    if n != "_":
+                        env3 = self.declare(env3, n, x)
+                return cont(env3)
+            vs, env3 = [], env2
+            for n, nt in zip(names, t[1]):
+                x = self.newvar(n if n != "_" else "w")
+                vs.append(x)
+                if n != "_":
+                    env3 = self.declare(env3, n, (nt, x))
+            return "match %s with\n| (%s) =>\n%s\nend" % (self.term_of(tv), ", ".join(vs), cont(env3))
+        return self.comp(e, env, k, ctx)
+
+    def has3(self, env, dotted):
+        try:
+            self.get3(env, dotted)
+            return True
+        except Rs2vError:
+            return False
+
+    def get3(self, env, dotted):
+        parts = dotted.split(".")
+        if parts[0] not in env or parts[0].startswith("%"):
+            raise Rs2vError("unknown variable %s" % parts[0])
+        v = env[parts[0]]
+        for p in parts[1:]:
+            v = self.field_of(v, p)
+        return v
+
+    def assign(self, s, env, cont, ctx):
+        lhs, op, rhs = s[1], s[2], s[3]
+        lv = self.lvalue(lhs)
+        if lv is None or not self.has3(env, lv):
+            raise Rs2vError("assignment to %r" % (lhs,))
+        t, cur = self.get3(env, lv)
+        if op in ("+=", "-="):
+            if rhs != ("num", 1) or t != Ty.NAT or op == "-=":
+                raise Rs2vError("assignment %s %s" % (lv, op))
+            return cont(self.set(env, lv, (t, "(S %s)" % self.term_of((t, cur)))))
+        if op != "=":
+            raise Rs2vError("assignment operator %s" % op)
+
+        def k(env2, tv):
+            hook = self.cfg.get("assign_hook")
+            if hook:
+                r = hook(self, lv, tv, env2)
+                if r is not None:
+                    return cont(r)
+            tv2 = self.coerce(tv, t, lv)
+            if not self.compatible(t, tv2[0]):
+                raise Rs2vError("assignment of a %s to %s : %s" % (tv2[0], lv, t))
+            nt = tv2[0] if (isinstance(t, tuple) and len(t) == 2 and t[1] is None) else t
+            return cont(self.set(env2, lv, (nt, tv2[1])))
+        return self.comp(rhs, env, k, ctx)
+
+    def compatible(self, t, u):
+        if t == u:
+            return True
+        return isinstance(t, tuple) and isinstance(u, tuple) and len(t) == 2 and len(u) == 2 and t[0] == u[0] \
+            and None in (t[1], u[1])
+
+    def ret(self, e, env, ctx):
+        if ctx.get("noret"):
+            raise Rs2vError("return inside a loop that is translated as a fold")
+        if e is None:
+            return self.cfg["result"](self, UNIT, env, ctx)
+        return self.comp(e, env, lambda env2, tv: self.cfg["result"](self, tv, env2, ctx), ctx)
+
+    # ---- computations ------------------------------------------------------------------------------
+    def comp(self, e, env, k, ctx):
+        """evaluate e (which may contain control flow and configured effects); k(env afterwards, value) -> coq text"""
+        t = e[0]
+        if t == "block":
+            inner = self.enter(env)
+            return self.seq(e[1], e[2], inner, lambda env_in, tv: k(self.leave(env, env_in), tv), ctx)
+        if t == "if":
+            return self.c_if(e, env, k, ctx)
+        if t == "iflet":
+            return self.c_match(e[2], [(e[1], e[3]), (("wild",), e[4] if e[4] is not None else ("block", [], None))], env, k, ctx)
+        if t == "match":
+            return self.c_match(e[1], e[2], env, k, ctx)
+        if t == "not":
+            return self.comp(e[1], env, lambda env2, tv: k(env2, self.negate(tv)), ctx)
+        inner = self.strip(e)
+        if inner[0] == "call" and inner[1][0] == "path":
+            hs = self.cfg.get("calls", {})
+            h = hs.get("::".join(inner[1][1])) or hs.get(inner[1][1][-1])
+            if h:
+                lets, env2, tv = h(self, inner[2], env, ctx)
+                return self.with_lets(lets, k(env2, tv))
+        if inner[0] == "mcall":
+            recv, m, args = inner[1], inner[2], inner[3]
+            h = self.cfg.get("mcalls", {}).get(m)
+            if h:
+                r = h(self, recv, args, env, ctx)
+                if r is not None:
+                    lets, env2, tv = r
+                    return self.with_lets(lets, k(env2, tv))
+            lv = self.lvalue(self.strip(recv))
+            if lv is not None and self.has3(env, lv) and m in ("insert", "remove", "push"):
+                rt, rv = self.get3(env, lv)
+                if isinstance(rt, tuple) and rt[0] == "map" and m == "insert" and len(args) == 2:
+                    kt, vt = self.pv(args[0], env), self.pv(args[1], env)
+                    vt = self.coerce(vt, rt[2], lv)
+                    if kt[0] != rt[1] or vt[0] != rt[2]:
+                        raise Rs2vError("insert of (%s, %s) into %s" % (kt[0], vt[0], lv))
+                    new = "(<[%s := %s]> %s)" % (self.term_of(kt), self.term_of(vt), self.term_of((rt, rv)))
+                    return k(self.set(env, lv, (rt, new)), (T_opt(rt[2]), POISON))
+                if isinstance(rt, tuple) and rt[0] == "map" and m == "remove" and len(args) == 1:
+                    kt = self.pv(args[0], env)
+                    if kt[0] != rt[1]:
+                        raise Rs2vError("remove of a %s from %s" % (kt[0], lv))
+                    new = "(delete %s %s)" % (self.term_of(kt), self.term_of((rt, rv)))
+                    return k(self.set(env, lv, (rt, new)), (T_opt(rt[2]), POISON))
+                if isinstance(rt, tuple) and rt[0] == "list" and m == "push" and len(args) == 1:
+                    return self.hoist3(args[0], env, ctx, lambda a2, env2: self.push(lv, a2, env2, k))
+        return self.hoist3(e, env, ctx, lambda e2, env2: k(env2, self.pv(e2, env2)))
+
+    def negate(self, tv):
+        if tv[0] != Ty.BOOL:
+            raise Rs2vError("! on a value of type %s" % (tv[0],))
+        return (Ty.BOOL, fold_bool("(negb %s)" % self.term_of(tv)))
+
+    def push(self, lv, a, env, k):
+        rt, rv = self.get3(env, lv)
+        at = self.coerce(self.pv(a, env), rt[1], lv)
+        if rt[1] is not None and at[0] != rt[1]:
+            raise Rs2vError("push of a %s onto %s" % (at[0], lv))
+        return k(self.set(env, lv, (T_list(at[0]), "(%s ++ [%s])" % (self.term_of((rt, rv)), self.term_of(at)))), UNIT)
+
+    def hoist3(self, e, env, ctx, k):
+        """Fn2.hoist after the `v[i]` that a bounds test has established are replaced by their element"""
+        env2 = dict(env)
+
+        def walk(n):
+            if isinstance(n, list):
+                return [walk(x) for x in n]
+            if not isinstance(n, tuple) or not n:
+                return n
+            if n[0] in ("if", "iflet", "match", "block", "char", "str", "num", "bool", "path"):
+                return n
+            if n[0] == "index":
+                f = self.fact(n, env)
+                if f is not None:
+                    self._h += 1
+                    tmp = "%%h%d" % self._h
+                    env2[tmp] = f
+                    return ("path", [tmp])
+                raise Rs2vError("v[i] without a bounds test the translator can use (a panic outcome is not expressible here)")
+            if n[0] == "struct":
+                return ("struct", n[1], [(f, walk(x)) for f, x in n[2]])
+            return tuple(walk(x) if isinstance(x, (tuple, list)) else x for x in n)
+        return self.hoist(walk(e), env2, ctx, k)
+
+    def c_if(self, e, env, k, ctx):
+        c, a, b = e[1], e[2], e[3] if e[3] is not None else ("block", [], None)
+        ot = self.opt_test3(c, env)
+        if ot:
+            lv, positive = ot
+            t, term = self.get3(env, lv)
+            inner = some_inner(term)
+            if inner is not None or term == "None":
+                return self.comp(a if (inner is not None) == positive else b, env, k, ctx)
+            v = self.newvar(lv)
+            sb, nb = (a, b) if positive else (b, a)
+            return "match %s with\n| Some %s =>\n%s\n| None =>\n%s\nend" % (
+                self.plain(term, lv), v, self.comp(sb, self.set(env, lv, (t, "(Some %s)" % v)), k, ctx),
+                self.comp(nb, self.set(env, lv, (t, "None")), k, ctx))
+        bt = self.bounds_test(c, env)
+        if bt:
+            (lt_, lterm), iterm, inb = bt
+            v = self.newvar("item")
+            facts = dict(env.get("%facts", ("meta", {}))[1])
+            facts[(lterm, iterm)] = (lt_[1], v)
+            env_in = dict(env)
+            env_in["%facts"] = ("meta", facts)
+            ib, ob = (a, b) if inb else (b, a)
+
+            def k_in(env2, tv):
+                env3 = dict(env2)
+                if "%facts" in env:
+                    env3["%facts"] = env["%facts"]
+                else:
+                    env3.pop("%facts", None)
+                return k(env3, tv)
+            return "match %s !! %s with\n| Some %s =>\n%s\n| None =>\n%s\nend" % (
+                lterm, iterm, v, self.comp(ib, env_in, k_in, ctx), self.comp(ob, env, k, ctx))
+
+        def go(env2, ctv):
+            ct, cterm = ctv
+            if ct != Ty.BOOL:
+                raise Rs2vError("condition of type %s" % (ct,))
+            cterm = fold_bool(self.term_of((ct, cterm)))
+            if cterm == "true":
+                return self.comp(a, env2, k, ctx)
+            if cterm == "false":
+                return self.comp(b, env2, k, ctx)
+            return "if %s then\n%s\nelse\n%s" % (cterm, self.comp(a, env2, k, ctx), self.comp(b, env2, k, ctx))
+        return self.comp(c, env, go, ctx)
+
+    def opt_test3(self, c, env):
+        pos = True
+        while c[0] == "not":
+            pos, c = not pos, c[1]
+        if c[0] == "mcall" and c[2] in ("is_some", "is_none") and not c[3]:
+            lv = self.lvalue(self.strip(c[1]))
+            if lv is not None and self.has3(env, lv) and self.has(env, lv):
+                t, term = self.get3(env, lv)
+                if isinstance(t, tuple) and t[0] == "option" and isinstance(term, str):
+                    return lv, (pos if c[2] == "is_some" else not pos)
+        return None
+
+    def variants(self, t):
+        """rust constructor path -> (coq constructor, payload types, rust arity or None when the payload is not modelled)"""
+        if isinstance(t, tuple):
+            if t[0] == "option":
+                return {"Some": ("Some", [t[1]], 1), "None": ("None", [], 0)}
+            if t[0] == "okopt":
+                return {"Ok": ("Some", [t[1]], 1), "Err": ("None", [], None)}
+            if t[0] == "erropt":
+                return {"Err": ("Some", [t[1]], 1), "Ok": ("None", [], None)}
+            if t[0] == "boolopt":
+                return {"Some": ("true", [], 1), "None": ("false", [], 0)}
+            if t[0] == "enum":
+                en = self.cfg.get("enums", {}).get(t[1])
+                if en:
+                    return {p: (c, list(ts) if ts is not None else [], len(ts) if ts is not None else None)
+                            for p, (c, ts) in en.items()}
+        raise Rs2vError("match on a value of type %s" % (t,))
+
+    def c_match(self, scrut, arms, env, k, ctx):
+        s = self.strip(scrut)
+        lv = self.lvalue(s)
+
+        def on(env1, tv):
+            return self.sum_match(tv, lv if (lv is not None and self.has(env1, lv)) else None, arms, env1, k, ctx)
+        return self.comp(scrut, env, on, ctx)
+
+    def sum_match(self, tv, lv, arms, env, k, ctx):
+        t, term = tv
+        vs = self.variants(t)
+        is_opt = isinstance(t, tuple) and t[0] == "option"
+        known = None
+        if is_opt and isinstance(term, str):
+            inner = some_inner(term)
+            if inner is not None:
+                known = ("Some", inner)
+            elif term == "None":
+                known = ("None", None)
+        clauses, covered, wild = [], set(), False
+        for pat, body in arms:
+            if wild:
+                break
+            if pat[0] == "wild":
+                if covered == set(vs):
+                    continue
+                wild = True
+                clauses.append((None, "_", self.enter(env), body))
+                continue
+            if pat[0] != "ctor":
+                raise Rs2vError("match pattern %r" % (pat,))
+            name = "::".join(pat[1])
+            if name not in vs or name in covered:
+                raise Rs2vError("match pattern %s on a value of type %s" % (name, t))
+            covered.add(name)
+            coqc, ptypes, arity = vs[name]
+            subs = pat[2]
+            env_arm = self.enter(env)
+            if arity is None:
+                for sname in subs:
+                    if sname:
+                        env_arm = self.declare(env_arm, sname, (None, POISON))
+                ptext = coqc
+            else:
+                if len(subs) != arity:
+                    raise Rs2vError("pattern %s with %d fields" % (name, len(subs)))
+                if isinstance(t, tuple) and t[0] == "boolopt":
+                    if subs and subs[0]:
+                        env_arm = self.declare(env_arm, subs[0], t[1])
+                    ptext = coqc
+                elif known is not None and name == "Some":
+                    if subs[0]:
+                        env_arm = self.declare(env_arm, subs[0], (ptypes[0], known[1]))
+                    ptext = "Some _"
+                else:
+                    names = []
+                    for sname, pt in zip(subs, ptypes):
+                        v = self.newvar(sname or "w")
+                        names.append(v)
+                        if sname:
+                            env_arm = self.declare(env_arm, sname, (pt, v))
+                    ptext = " ".join([coqc] + names)
+                    if is_opt and lv is not None:
+                        env_arm = self.set(env_arm, lv, (t, "(Some %s)" % names[0] if name == "Some" else "None"))
+            clauses.append((name, ptext, env_arm, body))
+        if not wild and covered != set(vs):
+            raise Rs2vError("match without an arm for %s" % ", ".join(sorted(set(vs) - covered)))
+
+        def arm_text(env_arm, body):
+            return self.comp(body, env_arm, lambda env_in, tv2: k(self.leave(env, env_in), tv2), ctx)
+        if known is not None:
+            for name, ptext, env_arm, body in clauses:
+                if name == known[0] or name is None:
+                    return arm_text(env_arm, body)
+        sterm = self.term_of(tv, "match scrutinee")
+        if isinstance(t, tuple) and t[0] == "boolopt":
+            by = {n: (e_, b_) for n, _p, e_, b_ in clauses}
+            yes = by.get("Some") or by.get(None)
+            no = by.get("None") or by.get(None)
+            return "if %s then\n%s\nelse\n%s" % (sterm, arm_text(*yes), arm_text(*no))
+        out = ["match %s with" % sterm]
+        for name, ptext, env_arm, body in clauses:
+            out.append("| %s =>" % ptext)
+            out.append(arm_text(env_arm, body))
+        out.append("end")
+        return "\n".join(out)
+
+    # ---- loops -------------------------------------------------------------------------------------
+    def declared_anywhere(self, node):
+        out = set()
+
+        def walk(n):
+            if isinstance(n, list):
+                for x in n:
+                    walk(x)
+                return
+            if not isinstance(n, tuple) or not n:
+                return
+            if n[0] == "let":
+                out.add(n[1])
+            elif n[0] == "lettuple":
+                out.update(n[1])
+            elif n[0] == "for":
+                out.add(n[1])
+            elif n[0] == "ctor" and len(n) == 3 and isinstance(n[2], list):
+                out.update(x for x in n[2] if x)
+            for x in n:
+                if isinstance(x, (tuple, list)):
+                    walk(x)
+        walk(node)
+        return out
+
+    def loop3(self, s, env, cont, ctx):
+        # `for x in l { v.push(x) }` is `v ++ l`
+        if s[0] == "for":
+            ext = self.extend_loop(s, env)
+            if ext is not None:
+                return cont(ext)
+        if ctx.get("loop") or self.in_step:
+            raise Rs2vError("nested loop")
+        lc = self.cfg.get("loop")
+        if not lc:
+            raise Rs2vError("a loop, but no loop is configured for this function")
+        if self.defs:
+            raise Rs2vError("more than one loop")
+        body = s[1] if s[0] == "loop" else s[3]
+        shadow = sorted(n for n in self.declared_anywhere(body) | ({s[1]} if s[0] == "for" else set())
+                        if n in env and not n.startswith("%"))
+        if shadow:
+            raise Rs2vError("the loop body re-declares %s" % ", ".join(shadow))
+        assigned = sorted(self.assigned_names(body))
+        if "?" in assigned:
+            raise Rs2vError("the loop assigns to something that is not a variable")
+        if lc["kind"] == "step" and s[0] == "loop":
+            return self.loop_step(lc, body, assigned, env, cont, ctx)
+        if lc["kind"] == "fold" and s[0] == "for":
+            return self.loop_fold(lc, s, assigned, env, cont, ctx)
+        raise Rs2vError("loop of another kind than configured")
+
+    def extend_loop(self, s, env):
+        pat, it, body = s[1], self.strip(s[2]), s[3]
+        stmts = list(body[1]) + ([("expr", body[2])] if body[2] is not None else [])
+        if len(stmts) != 1 or stmts[0][0] != "expr":
+            return None
+        e = stmts[0][1]
+        if not (e[0] == "mcall" and e[2] == "push" and len(e[3]) == 1 and self.strip(e[3][0]) == ("path", [pat])):
+            return None
+        lv = self.lvalue(self.strip(e[1]))
+        if lv is None or not self.has3(env, lv) or pat in env:
+            return None
+        try:
+            lt_, lterm = self.pv(it, env)
+        except Rs2vError:
+            return None
+        rt, rv = self.get3(env, lv)
+        if not (isinstance(rt, tuple) and rt[0] == "list" and isinstance(lt_, tuple) and lt_[0] == "list"):
+            return None
+        if rt[1] is not None and lt_[1] != rt[1]:
+            return None
+        return self.set(env, lv, (T_list(lt_[1]), "(%s ++ %s)" % (self.term_of((rt, rv)), self.term_of((lt_, lterm)))))
+
+    def invariant_locals(self, lc, assigned, env):
+        inv = {}
+        for a in assigned:
+            root = a.split(".")[0]
+            if root not in env or root.startswith("%"):
+                continue
+            if any(a == n or a.startswith(n + ".") for n in lc["state"]):
+                continue
+            tv = self.get3(env, a)
+            if isinstance(tv[0], tuple) and tv[0][0] == "place":
+                continue                     # a facet of the world: the handlers account for it
+            if not isinstance(tv[1], str):
+                raise Rs2vError("the loop assigns %s, which is not part of the configured state" % a)
+            inv[a] = tv
+        return inv
+
+    def check_body(self, text, outer_fresh):
+        """a loop body becomes a definition of its own: it may only mention its binders and what it binds itself"""
+        if POISON in text:
+            raise Rs2vError("the loop body uses a value that is not available")
+        free = sorted(set(re.findall(r"[A-Za-z_][A-Za-z0-9_']*", text)) & outer_fresh)
+        if free:
+            raise Rs2vError("the loop body uses %s, bound outside the loop" % ", ".join(free))
+
+    def loop_step(self, lc, body, assigned, env, cont, ctx):
+        inv = self.invariant_locals(lc, assigned, env)
+        benv = lc["entry"](self, dict(env))
+
+        def at_continue(env2, _tv):
+            for a, tv in inv.items():
+                if self.get3(env2, a) != tv:
+                    raise Rs2vError("the loop changes %s on a path that continues; it is not part of the loop state" % a)
+            return lc["cont"](self, env2)
+
+        def at_break(env_b):
+            base = {n: env_b[n] for n in env_b if n in env or n.startswith("%")}
+            base["%decl"], base["%saved"] = env.get("%decl", ("meta", frozenset())), env.get("%saved", ("meta", {}))
+            base.pop("%facts", None)
+            return cont(base)
+        outer_fresh = set(self.fresh_names)
+        self.in_step = True
+        try:
+            text = self.seq(body[1], body[2], self.enter(benv), at_continue,
+                            {"brk": at_break, "cnt": lambda env_c: at_continue(env_c, UNIT), "loop": True})
+        finally:
+            self.in_step = False
+        self.check_body(text, outer_fresh)
+        self.defs.append((lc["name"], "Definition %s %s : %s :=\n%s.\n" % (lc["name"], lc["binders"], lc["type"], text)))
+        return lc["drive"](self, env)
+
+    def loop_fold(self, lc, s, assigned, env, cont, ctx):
+        pat, it, body = s[1], self.strip(s[2]), s[3]
+        if it[0] == "mcall" and it[2] == "iter" and not it[3]:
+            it = self.strip(it[1])
+        lt_, lterm = self.pv(it, env)
+        if not (isinstance(lt_, tuple) and lt_[0] == "list" and lt_[1] == lc["item"][0]):
+            raise Rs2vError("loop over a value of type %s" % (lt_,))
+        state = lc["state"]
+        for a in assigned:
+            root = a.split(".")[0]
+            if root in env and not any(a == n or a.startswith(n + ".") for n in state):
+                raise Rs2vError("the loop assigns %s, which is not part of the configured state (%s)" % (a, ", ".join(state)))
+        outer_fresh = set(self.fresh_names)
+        svars, benv = [], dict(env)
+        for n in state:
+            v = self.newvar(n)
+            svars.append(v)
+            benv = self.set(benv, n, (self.get3(env, n)[0], v))
+        item = self.newvar(pat)
+        benv = self.declare(self.enter(benv), pat, (lc["item"][0], item))
+
+        def pack(env_):
+            ts = [self.term_of(self.get3(env_, n), n) for n in state]
+            return ts[0] if len(ts) == 1 else "(" + ", ".join(ts) + ")"
+        text = self.seq(body[1], body[2], benv, lambda env2, _tv: pack(env2), {"loop": True, "noret": True, "cnt": pack})
+        self.check_body(text, outer_fresh)
+        spat = svars[0] if len(svars) == 1 else "'(" + ", ".join(svars) + ")"
+        self.defs.append((lc["name"], "Definition %s %s(st : %s) (%s : %s) : %s :=\nlet %s := st in\n%s.\n" % (
+            lc["name"], (lc["binders"] + " ") if lc.get("binders") else "", lc["state_type"], item, lc["item"][1],
+            lc["state_type"], spat, text)))
+        call = "(%s%s)" % (lc["name"], (" " + lc["args"]) if lc.get("args") else "")
+        self.fold_info = {"call": call, "list": self.term_of((lt_, lterm)), "init": pack(env)}
+        drive = "(foldl %s %s %s)" % (call, pack(env), self.term_of((lt_, lterm)))
+        avars = [self.newvar(n) for n in state]
+        env_after = env
+        for n, v in zip(state, avars):
+            env_after = self.set(env_after, n, (self.get3(env, n)[0], v))
+        apat = avars[0] if len(avars) == 1 else "'(" + ", ".join(avars) + ")"
+        return "let %s := %s in\n%s" % (apat, drive, cont(env_after))
+
+    # ---- whole function ----------------------------------------------------------------------------
+    def function(self, params, body):
+        env = {"%decl": ("meta", frozenset()), "%saved": ("meta", {})}
+        for pn, _ in params:
+            if pn not in self.cfg["params"]:
+                raise Rs2vError("parameter %s is not known to the configuration" % pn)
+            env[pn] = self.cfg["params"][pn]
+        if len(params) != len(self.cfg["params"]):
+            raise Rs2vError("the function has %d parameters, the configuration %d" % (len(params), len(self.cfg["params"])))
+        env.update(self.cfg.get("env0", {}))
+        text = self.seq(body[1], body[2], env, lambda env2, tv: self.cfg["result"](self, tv, env2, {}), {})
+        if POISON in text:
+            raise Rs2vError("a value that is not available is used")
+        return text
+
+
+# =================================================================================================
+# Command wave, builder B17 (first client: lib/gen/strings_gen.py — the `run` functions of the string / range / hex / number
+# comparison commands of duckscript_sdk/src/sdk/std).  Purely additive: nothing above this line is changed.  The parser
+# extends PState; the executor FnCmd is a NEW class (continuation passing, no loop state records: a command's `run` is a
+# decision tree over its argument vector).
+#
+#   PCmd / parse_cmd_run / parse_cmd_helper
+#       turbofish method calls `x.parse::<u64>()`, casts `e as T`, the TYPE of `let x: T = e` and of a helper's `-> T`
+#       (kept as text: they decide which `parse()` / `try_into()` is meant), negative integer literals, a block-like
+#       expression (`if` / `match`) at the start of a statement ends the statement; otherwise the PState grammar
+#   FnCmd   symbolic executor in continuation-passing style.  Every Rust value is a CmdV (type, Coq term, and what is
+#       statically known about it: a literal text, a known constructor Some / None / Ok / Err, tuple components).
+#     * control flow (`if` / `else if`, `match` on Option / Result, early `return`, `if let`, blocks as values, `let (a, b) =
+#       if .. { (x, y) } else { return .. }`) copies the continuation into the branches: the result is a decision tree
+#       whose leaves are command results; a `match` / `if` on a statically known value is decided here;
+#     * every operation that can unwind is an explicit arm: `v[<literal>]` on the argument vector is `match nth_error args i
+#       with None => <panic> | Some x => ..` (bound once per path: inside that arm the same element is reused),
+#       `.unwrap()` on a value not known to be Some / Ok, checked integer arithmetic (cfg["arith"]: `a - b` on isize is
+#       `match isize_sub a b with None => <panic> | Some t => ..`);
+#     * free helper functions of the same file (cfg["helpers"]) are inlined at the call (their `return` is the call's value);
+#     * `for x in LIST { V.push(E) }` on a Vec local declared in the same block is `for_push (fun x => E) LIST V`
+#       (Rs2vStrLib), `ITER.map(|x| E)` / `ITER.filter(|x| E)` are `map / filter (fun x => E) ITER`, `OPTION.map(|x| E)` is
+#       `option_map`, `.collect()` is the list; E must be free of control flow;
+#     * what a method / path / macro / cast MEANS is the configuration's (cfg["methods"], cfg["paths"], cfg["macros"],
+#       cfg["casts"], cfg["compare"], cfg["arith"]): the executor knows nothing about std; a call the configuration does
+#       not list is Rs2vError;
+#     * mutation is only understood on locals of the block that is executing (frame check): anything else is Rs2vError.
+#   Everything not understood raises Rs2vError.
+class PCmd(PState):
+    ret_type = None
+
+    def type_text(self):
+        """skip a type, returning its text"""
+        a = self.i
+        self.skip_type()
+        return "".join(str(t[1]) for t in self.t[a:self.i])
+
+    def fn(self):
+        """fn name([&[mut]] self, params) [-> type] block; records receiver and ret_type (text or None)"""
+        while not self.at("id", "fn"):
+            if self.at("eof"):
+                raise Rs2vError("eof looking for fn")
+            self.i += 1
+        self.eat("id", "fn")
+        name = self.eat("id")
+        if self.opt("op", "<"):
+            raise Rs2vError("generic fn %s" % name)
+        self.eat("op", "(")
+        if self.at("op", "&") and (self.peek(1) == ("id", "self") or
+                                   (self.peek(1) == ("id", "mut") and self.peek(2) == ("id", "self"))):
+            self.i += 1
+            self.receiver = "mut" if self.opt("id", "mut") else "ref"
+            self.eat("id", "self")
+            self.opt("op", ",")
+        elif self.at("id", "self") or (self.at("id", "mut") and self.peek(1) == ("id", "self")):
+            self.opt("id", "mut")
+            self.eat("id", "self")
+            self.receiver = "own"
+            self.opt("op", ",")
+        params = []
+        while not self.at("op", ")"):
+            self.opt("id", "mut")
+            pn = self.eat("id")
+            self.eat("op", ":")
+            params.append((pn, self.type_text()))
+            self.opt("op", ",")
+        self.eat("op", ")")
+        if self.opt("op", "->"):
+            self.ret_type = self.type_text()
+        return name, params, self.block()
+
+    def stmt(self):
+        if self.at("id", "let") and self.peek(1) != ("op", "("):
+            self.i += 1
+            mut = self.opt("id", "mut")
+            name = self.eat("id")
+            ty = None
+            if self.opt("op", ":"):
+                ty = self.type_text()
+            self.eat("op", "=")
+            e = self.expr()
+            self.eat("op", ";")
+            return ("let", name, e, ty, mut)
+        if self.at("id", "if") or self.at("id", "match"):
+            # a block-like expression at the start of a statement ends there: `if c { .. } (a, b)` is not a call
+            e = self.atom(False)
+            if self.at("op", "}"):
+                return ("tail", e)
+            self.opt("op", ";")
+            return ("expr", e)
+        return super().stmt()
+
+    def unary(self, no_struct):
+        if self.at("op", "-") and self.peek(1)[0] == "num":
+            self.i += 1
+            e = self.postfix(("num", -self.eat("num")))
+        else:
+            e = super().unary(no_struct)
+        while self.at("id", "as"):
+            self.i += 1
+            e = ("cast", e, self.eat("id"))
+        return e
+
+    def postfix(self, e):
+        while True:
+            if self.opt("op", "("):
+                e = ("call", e, self.args(")"))
+            elif self.opt("op", "["):
+                ix = self.expr()
+                self.eat("op", "]")
+                e = ("index", e, ix)
+            elif self.at("op", ".") and self.peek(1)[0] == "id":
+                self.i += 1
+                n = self.eat("id")
+                tf = None
+                if self.at("op", "::") and self.peek(1) == ("op", "<"):
+                    self.i += 2
+                    tf = self.type_text()
+                    self.eat("op", ">")
+                if self.opt("op", "("):
+                    e = ("mcall", e, n, self.args(")"), tf)
+                elif tf is not None:
+                    raise Rs2vError("turbofish without a call")
+                else:
+                    e = ("field", e, n)
+            else:
+                return e
+
+
+def parse_cmd_run(src, trait="Command", type_name="CommandImpl", name="run"):
+    """`fn run` of `impl Command for CommandImpl { .. }`, PCmd grammar -> (receiver, [(param, type text)], body)"""
+    ms = list(re.finditer(r"^\s*impl\s+%s\s+for\s+%s\s*\{" % (re.escape(trait), re.escape(type_name)), src, re.M))
+    if len(ms) != 1:
+        raise Rs2vError("impl %s for %s: %d blocks" % (trait, type_name, len(ms)))
+    body = balanced_block(src, ms[0].end() - 1)
+    fs = list(re.finditer(r"\bfn\s+%s\s*\(" % re.escape(name), body))
+    if len(fs) != 1:
+        raise Rs2vError("fn %s: %d definitions in impl %s for %s" % (name, len(fs), trait, type_name))
+    p = PCmd(lex(body[fs[0].start():], stop_after_item=True))
+    _n, params, blk = p.fn()
+    return p.receiver, params, blk
+
+
+def parse_cmd_helper(src, name):
+    """a free function of the file, PCmd grammar -> ([(param, type text)], return type text, body)"""
+    ms = list(re.finditer(r"^(?:pub(?:\([a-z]+\))?\s+)?fn\s+%s\s*\(" % re.escape(name), src, re.M))
+    if len(ms) != 1:
+        raise Rs2vError("fn %s: %d definitions" % (name, len(ms)))
+    p = PCmd(lex(src[ms[0].start():], stop_after_item=True))
+    _n, params, body = p.fn()
+    if p.receiver is not None:
+        raise Rs2vError("fn %s has a receiver" % name)
+    return params, p.ret_type, body
+
+
+def cmd_free_fns(src):
+    """names of the free functions (column 0) of a file"""
+    return re.findall(r"^(?:pub(?:\([a-z]+\))?\s+)?fn\s+(\w+)\s*\(", src, re.M)
+
+
+class CmdV:
+    """a symbolic Rust value: ty (a name or a tuple such as ("opt", T) / ("res", T, E) / ("list", T) / ("iter", T)),
+    term (Coq text or None for values that exist only statically: messages, error payloads, closures, tuples),
+    lit (the text of a string literal / the static prefix of a formatted message), known (("Some", v) / ("None",) /
+    ("Ok", v) / ("Err", v) / a Python bool for boolean literals), items (tuple components; closure parts)"""
+    __slots__ = ("ty", "term", "lit", "known", "items")
+
+    def __init__(self, ty, term=None, lit=None, known=None, items=None):
+        self.ty, self.term, self.lit, self.known, self.items = ty, term, lit, known, items
+
+    def __repr__(self):
+        return "CmdV(%r, %r)" % (self.ty, self.term)
+
+
+def cmd_indent(text, n=2):
+    pad = " " * n
+    return "\n".join(pad + l if l else l for l in text.split("\n"))
+
+
+class FnCmd:
+    """cfg keys:
+      params      {rust name: CmdV}                               what the parameters of the function are
+      fields      {(rust name, field): CmdV}                      `context.arguments`, `context.state`
+      args_term   Coq term of the argument vector (`v[i]` with a literal i is only understood on it), panic: Coq term
+      finish      f(fn, CmdV) -> Coq term                         the function result for the value `run` ends with
+      ctors       {rust path string: f(fn, [CmdV], expect) -> CmdV}   CommandResult::Continue, StateValue::String ..
+      paths       {rust path string: f(fn, [CmdV], expect) -> CmdV}   free / associated functions (put_handle, u64::from_str_radix)
+      methods     {(type tag, method): f(fn, recv CmdV, [CmdV], turbofish, expect) -> CmdV}   type tag = ty or ty[0]
+      macros      {name: f(fn, [arg exprs], env, k, ctx, expect) -> Coq term}
+      casts       {(from ty, to ty): fmt}
+      compare     {ty: {"<": fmt, "<=": fmt, "==": fmt}}          fmt % (a, b); > >= != are derived
+      arith       {(ty, op): checked function name}               result option: None is the panic arm
+      literal     {ty: fmt % int}                                 how an integer literal of that type is written
+      types       f(type text) -> ty or None                      Rust type text -> ty
+      helpers     {name: ([(param, type text)], return type text, body)}
+      coq_type    f(ty) -> Coq type text (binders of fun)
+    """
+
+    def __init__(self, cfg):
+        self.cfg = cfg
+        self.names = {}
+        self.argcache = {}
+        self.frames = 0
+
+    # ---- small helpers
+    def fresh(self, base):
+        base = "v_" + re.sub(r"[^A-Za-z0-9_]", "_", base)
+        n = self.names.get(base, 0)
+        self.names[base] = n + 1
+        return base if n == 0 else "%s_%d" % (base, n)
+
+    def ty_of_text(self, text):
+        return None if text is None else self.cfg["types"](text)
+
+    def panic(self):
+        return self.cfg["panic"]
+
+    def match2(self, scrut, pat1, body1, pat2, body2):
+        return "match %s with\n| %s =>\n%s\n| %s =>\n%s\nend" % (scrut, pat1, cmd_indent(body1, 4), pat2, cmd_indent(body2, 4))
+
+    def ite(self, c, a, b):
+        return "if %s\nthen\n%s\nelse\n%s" % (c, cmd_indent(a), cmd_indent(b))
+
+    def literal(self, v, ty):
+        """an integer literal used at type ty"""
+        if v.ty != "intlit":
+            return v
+        if ty not in self.cfg["literal"]:
+            raise Rs2vError("integer literal used at type %r" % (ty,))
+        return CmdV(ty, self.cfg["literal"][ty] % v.items)
+
+    def unify(self, a, b):
+        if a.ty == "intlit" and b.ty != "intlit":
+            a = self.literal(a, b.ty)
+        elif b.ty == "intlit" and a.ty != "intlit":
+            b = self.literal(b, a.ty)
+        elif a.ty == "intlit" and b.ty == "intlit":
+            raise Rs2vError("operation on two integer literals")
+        if a.ty != b.ty:
+            raise Rs2vError("operands of different types %r / %r" % (a.ty, b.ty))
+        return a, b
+
+    def pure(self, e, env, ctx, expect=None):
+        """the value of an expression that must be free of control flow and of panicking operations"""
+        box = []
+
+        def k(v):
+            box.append(v)
+            return "\0HOLE"
+        t = self.ex(e, env, k, ctx, expect)
+        if t != "\0HOLE" or len(box) != 1:
+            raise Rs2vError("control flow or a panicking operation where a plain value is required")
+        return box[0]
+
+    def declare(self, env, name, v, mut=False):
+        env[name] = v
+        env["%decl"] = dict(env["%decl"])
+        env["%decl"][name] = (env["%frame"], mut)
+
+    def enter(self, env):
+        env = dict(env)
+        self.frames += 1
+        env["%frame"] = self.frames
+        return env
+
+    # ---- the whole function
+    def function(self, body, ret_type=None):
+        env = dict(self.cfg["params"])
+        env["%decl"], env["%frame"] = {}, 0
+        ctx = {"ret": lambda v: self.cfg["finish"](self, v), "ret_type": ret_type}
+        return self.block(body, env, ctx["ret"], ctx, ret_type)
+
+    # ---- blocks and statements
+    def block(self, b, env, k, ctx, expect=None):
+        if b is None:
+            return k(CmdV("unit"))
+        if b[0] != "block":
+            return self.ex(b, env, k, ctx, expect)
+        return self.stmts(list(b[1]), b[2], self.enter(env), k, ctx, expect)
+
+    def stmts(self, ss, tail, env, k, ctx, expect):
+        if not ss:
+            if tail is None:
+                return k(CmdV("unit"))
+            return self.ex(tail, env, k, ctx, expect)
+        s, rest = ss[0], ss[1:]
+        kind = s[0]
+        if kind == "let":
+            name, e = s[1], s[2]
+            ty = self.ty_of_text(s[3]) if len(s) > 3 else None
+            mut = s[4] if len(s) > 4 else False
+
+            def k_let(v):
+                if ty is not None:
+                    v = self.ascribe(v, ty)
+                env2 = dict(env)
+                self.declare(env2, name, v, mut)
+                return self.stmts(rest, tail, env2, k, ctx, expect)
+            return self.ex(e, env, k_let, ctx, ty)
+        if kind == "lettuple":
+            names, e = s[1], s[2]
+
+            def k_tup(v):
+                if v.ty != "tuple" or len(v.items) != len(names):
+                    raise Rs2vError("let (%s) = a value that is not such a tuple" % ", ".join(names))
+                env2 = dict(env)
+                for n, x in zip(names, v.items):
+                    self.declare(env2, n, x)
+                return self.stmts(rest, tail, env2, k, ctx, expect)
+            return self.ex(e, env, k_tup, ctx, None)
+        if kind == "return":
+            if s[1] is None:
+                return ctx["ret"](CmdV("unit"))
+            return self.ex(s[1], env, ctx["ret"], ctx, ctx["ret_type"])
+        if kind == "for":
+            env2 = self.for_push(s, env, ctx)
+            return self.stmts(rest, tail, env2, k, ctx, expect)
+        if kind == "expr":
+            e = s[1]
+            if e[0] == "mcall" and e[2] == "push" and e[1][0] == "path" and len(e[1][1]) == 1:
+                env2 = self.push(e, env, ctx)
+                return self.stmts(rest, tail, env2, k, ctx, expect)
+
+            def k_unit(v):
+                if v.ty != "unit":
+                    raise Rs2vError("value of type %r discarded" % (v.ty,))
+                return self.stmts(rest, tail, env, k, ctx, expect)
+            return self.ex(e, env, k_unit, ctx, "unit")
+        raise Rs2vError("statement %s" % kind)
+
+    def mutable_local(self, env, name):
+        d = env["%decl"].get(name)
+        if d is None or not d[1]:
+            raise Rs2vError("mutation of %s, which is not a `let mut` local" % name)
+        if d[0] != env["%frame"]:
+            raise Rs2vError("mutation of %s inside a nested block" % name)
+        return env[name]
+
+    def push(self, e, env, ctx):
+        """V.push(E);  on a Vec local of the executing block"""
+        name = e[1][1][0]
+        cur = self.mutable_local(env, name)
+        if not (isinstance(cur.ty, tuple) and cur.ty[0] == "list") or len(e[3]) != 1:
+            raise Rs2vError("push on %r" % (cur.ty,))
+        x = self.pure(e[3][0], env, ctx)
+        if cur.ty[1] not in (None, x.ty):
+            raise Rs2vError("push of %r on a Vec of %r" % (x.ty, cur.ty[1]))
+        env2 = dict(env)
+        env2[name] = CmdV(("list", x.ty), "(%s ++ [%s])" % (cur.term, x.term))
+        return env2
+
+    def for_push(self, s, env, ctx):
+        """for x in LIST { V.push(E); }"""
+        _, pat, it, body = s
+        if body[0] != "block" or body[2] is not None or len(body[1]) != 1:
+            raise Rs2vError("for loop whose body is not a single push")
+        st = body[1][0]
+        if not (st[0] == "expr" and st[1][0] == "mcall" and st[1][2] == "push" and st[1][1][0] == "path"
+                and len(st[1][1][1]) == 1 and len(st[1][3]) == 1):
+            raise Rs2vError("for loop whose body is not a single push")
+        name = st[1][1][1][0]
+        cur = self.mutable_local(env, name)
+        if not (isinstance(cur.ty, tuple) and cur.ty[0] == "list"):
+            raise Rs2vError("push on %r" % (cur.ty,))
+        lst = self.pure(it, env, ctx)
+        if not (isinstance(lst.ty, tuple) and lst.ty[0] in ("list", "iter")):
+            raise Rs2vError("for over %r" % (lst.ty,))
+        x = self.fresh(pat)
+        env_b = self.enter(env)
+        self.declare(env_b, pat, CmdV(lst.ty[1], x))
+        el = self.pure(st[1][3][0], env_b, ctx)
+        if cur.ty[1] not in (None, el.ty):
+            raise Rs2vError("push of %r on a Vec of %r" % (el.ty, cur.ty[1]))
+        env2 = dict(env)
+        env2[name] = CmdV(("list", el.ty), "(for_push (fun %s : %s => %s) %s %s)"
+                          % (x, self.cfg["coq_type"](lst.ty[1]), el.term, lst.term, cur.term))
+        return env2
+
+    def ascribe(self, v, ty):
+        if v.ty == "intlit":
+            return self.literal(v, ty)
+        if isinstance(ty, tuple) and ty[0] == "list" and isinstance(v.ty, tuple) and v.ty[0] == "list":
+            return v                       # Vec<_>
+        if v.ty != ty:
+            raise Rs2vError("let of type %r bound to a value of type %r" % (ty, v.ty))
+        return v
+
+    # ---- expressions
+    def ex(self, e, env, k, ctx, expect=None):
+        kind = e[0]
+        if kind == "str":
+            return k(CmdV("str", coq_str_lit(e[1]), lit=e[1]))
+        if kind == "num":
+            v = CmdV("intlit", None, items=e[1])
+            if isinstance(expect, str) and expect in self.cfg["literal"]:
+                v = self.literal(v, expect)
+            return k(v)
+        if kind == "bool":
+            return k(CmdV("bool", "true" if e[1] else "false", known=e[1]))
+        if kind == "path":
+            return self.path(e, env, k, ctx, expect)
+        if kind in ("ref", "refmut"):
+            return self.ex(e[1], env, k, ctx, expect)
+        if kind == "not":
+            def k_not(v):
+                if v.ty != "bool":
+                    raise Rs2vError("! on %r" % (v.ty,))
+                if isinstance(v.known, bool):
+                    return k(CmdV("bool", "false" if v.known else "true", known=not v.known))
+                return k(CmdV("bool", "(negb %s)" % v.term))
+            return self.ex(e[1], env, k_not, ctx, "bool")
+        if kind == "cast":
+            to = self.ty_of_text(e[2])
+
+            def k_cast(v):
+                f = self.cfg["casts"].get((v.ty, to))
+                if f is None:
+                    raise Rs2vError("cast %r as %s" % (v.ty, e[2]))
+                return k(CmdV(to, f % v.term))
+            return self.ex(e[1], env, k_cast, ctx, None)
+        if kind == "tuple":
+            return self.seq(e[1], env, lambda vs: k(CmdV("unit") if not vs else CmdV("tuple", items=vs)), ctx)
+        if kind == "bin":
+            return self.bin(e, env, k, ctx)
+        if kind == "field":
+            if e[1][0] == "path" and len(e[1][1]) == 1 and (e[1][1][0], e[2]) in self.cfg["fields"]:
+                return k(self.cfg["fields"][(e[1][1][0], e[2])])
+            raise Rs2vError("field .%s" % e[2])
+        if kind == "index":
+            return self.index(e, env, k, ctx)
+        if kind == "call":
+            return self.call(e, env, k, ctx, expect)
+        if kind == "mcall":
+            return self.mcall(e, env, k, ctx, expect)
+        if kind == "macro":
+            h = self.cfg["macros"].get(e[1])
+            if h is None:
+                raise Rs2vError("macro %s!" % e[1])
+            return h(self, e[2], env, k, ctx, expect)
+        if kind == "if":
+            return self.if_(e, env, k, ctx, expect)
+        if kind == "iflet":
+            arms = [(e[1], e[3]), (("wild",), e[4] if e[4] is not None else ("block", [], None))]
+            return self.match(("match", e[2], arms), env, k, ctx, expect)
+        if kind == "match":
+            return self.match(e, env, k, ctx, expect)
+        if kind == "block":
+            return self.block(e, env, k, ctx, expect)
+        if kind == "closure":
+            return k(CmdV("closure", items=(e[1], e[2], env)))
+        raise Rs2vError("expression %s" % kind)
+
+    def seq(self, es, env, k, ctx, expects=None):
+        """evaluate expressions left to right"""
+        def go(i, acc):
+            if i == len(es):
+                return k(acc)
+            return self.ex(es[i], env, lambda v: go(i + 1, acc + [v]), ctx, expects[i] if expects else None)
+        return go(0, [])
+
+    def path(self, e, env, k, ctx, expect):
+        p = e[1]
+        if len(p) == 1 and p[0] in env and not p[0].startswith("%"):
+            return k(env[p[0]])
+        if p == ["None"]:
+            inner = expect[1] if isinstance(expect, tuple) and expect[0] in ("opt", "wrap") else None
+            return k(CmdV(("opt", inner), "None", known=("None",)))
+        raise Rs2vError("name %s" % "::".join(p))
+
+    def index(self, e, env, k, ctx):
+        def k_base(b):
+            if b.term != self.cfg["args_term"] or e[2][0] != "num":
+                raise Rs2vError("indexing other than <argument vector>[<literal>]")
+            i = e[2][1]
+            if i in self.argcache:
+                return k(CmdV("str", self.argcache[i]))
+            x = self.fresh("a%d" % i)
+            self.argcache[i] = x
+            try:
+                body = k(CmdV("str", x))
+            finally:
+                del self.argcache[i]
+            return self.match2("nth_error %s %d" % (b.term, i), "None", self.panic(), "Some %s" % x, body)
+        return self.ex(e[1], env, k_base, ctx, None)
+
+    CMP = {"<": ("<", False, False), "<=": ("<=", False, False), ">": ("<", True, False), ">=": ("<=", True, False),
+           "==": ("==", False, False), "!=": ("==", False, True)}
+
+    def bin(self, e, env, k, ctx):
+        op = e[1]
+        if op in ("&&", "||"):
+            def k_l(a):
+                if a.ty != "bool":
+                    raise Rs2vError("%s on %r" % (op, a.ty))
+
+                def k_r(b):
+                    if b.ty != "bool":
+                        raise Rs2vError("%s on %r" % (op, b.ty))
+                    return k(b)
+                short = CmdV("bool", "false" if op == "&&" else "true", known=(op == "||"))
+                if isinstance(a.known, bool):
+                    return self.ex(e[3], env, k_r, ctx, "bool") if a.known == (op == "&&") else k(short)
+                go_on, stop = self.ex(e[3], env, k_r, ctx, "bool"), k(short)
+                return self.ite(a.term, go_on, stop) if op == "&&" else self.ite(a.term, stop, go_on)
+            return self.ex(e[2], env, k_l, ctx, "bool")
+        if op == "..":
+            return self.seq([e[2], e[3]], env, lambda vs: k(self.range_(vs)), ctx)
+
+        def k_ops(vs):
+            a, b = self.unify(vs[0], vs[1])
+            if op in self.CMP:
+                base, swap, neg = self.CMP[op]
+                fm = self.cfg["compare"].get(a.ty, {}).get(base)
+                if fm is None:
+                    raise Rs2vError("%s on %r" % (op, a.ty))
+                if callable(fm):
+                    return fm(self, (b, a) if swap else (a, b), neg, k)
+                t = fm % ((b.term, a.term) if swap else (a.term, b.term))
+                return k(CmdV("bool", "(negb %s)" % t if neg else t))
+            f = self.cfg["arith"].get((a.ty, op))
+            if f is None:
+                raise Rs2vError("%s on %r" % (op, a.ty))
+            x = self.fresh("n")
+            return self.match2("%s %s %s" % (f, a.term, b.term), "None", self.panic(), "Some %s" % x, k(CmdV(a.ty, x)))
+        return self.seq([e[2], e[3]], env, k_ops, ctx)
+
+    def range_(self, vs):
+        a, b = self.unify(vs[0], vs[1])
+        return CmdV(("range", a.ty), items=[a, b])
+
+    def if_(self, e, env, k, ctx, expect):
+        def k_c(c):
+            if c.ty != "bool":
+                raise Rs2vError("if on %r" % (c.ty,))
+            if isinstance(c.known, bool):
+                return self.block(e[2] if c.known else e[3], env, k, ctx, expect)
+            return self.ite(c.term, self.block(e[2], env, k, ctx, expect), self.block(e[3], env, k, ctx, expect))
+        return self.ex(e[1], env, k_c, ctx, "bool")
+
+    def arm_for(self, arms, ctor):
+        """the arm that takes constructor ctor (Some / None / Ok / Err): (binder name or None, body)"""
+        for pat, body in arms:
+            if pat[0] == "wild":
+                return None, body
+            if pat[0] == "ctor" and pat[1][-1] == ctor:
+                if ctor == "None":
+                    if pat[2]:
+                        raise Rs2vError("None with a sub-pattern")
+                    return None, body
+                if len(pat[2]) != 1:
+                    raise Rs2vError("%s pattern with %d sub-patterns" % (ctor, len(pat[2])))
+                return pat[2][0], body
+            if pat[0] == "ctor" and not pat[2] and len(pat[1]) == 1 and pat[1][0] not in ("None",) and pat[1][0][:1].islower():
+                return ("%whole", pat[1][0]), body            # a variable pattern binds the whole value
+        raise Rs2vError("match without an arm for %s" % ctor)
+
+    def parse_hint(self, scrut, arms, expect):
+        """the payload type a method call without turbofish (`s.parse()`) must have, read off the Ok arm: `Ok(v) => v` gives the
+        expected type of the match, `Ok(v) => Ok(v)` its Ok component"""
+        for pat, body in arms:
+            if pat[0] == "ctor" and pat[1][-1] == "Ok" and len(pat[2]) == 1 and pat[2][0] is not None:
+                v = pat[2][0]
+                if body == ("path", [v]) and expect is not None and not isinstance(expect, tuple):
+                    return ("wrap", expect)
+                if body[0] == "call" and body[1] == ("path", ["Ok"]) and body[2] == [("path", [v])] \
+                        and isinstance(expect, tuple) and expect[0] == "res":
+                    return ("wrap", expect[1])
+        return None
+
+    def match(self, e, env, k, ctx, expect):
+        arms = e[2]
+        hint = self.parse_hint(e[1], arms, expect)
+
+        def k_s(v):
+            t = v.ty
+            if not (isinstance(t, tuple) and t[0] in ("opt", "res")):
+                raise Rs2vError("match on a value of type %r" % (t,))
+            good, bad = ("Some", "None") if t[0] == "opt" else ("Ok", "Err")
+
+            def run_arm(ctor, payload):
+                name, body = self.arm_for(arms, ctor)
+                env2 = self.enter(env)
+                if isinstance(name, tuple):
+                    self.declare(env2, name[1], v)
+                elif name is not None:
+                    if payload is None:
+                        raise Rs2vError("pattern variable %s for a value without a payload" % name)
+                    self.declare(env2, name, payload)
+                return self.block(body, env2, k, ctx, expect) if body[0] == "block" else self.ex(body, env2, k, ctx, expect)
+            if v.known is not None:
+                return run_arm(v.known[0], v.known[1] if len(v.known) > 1 else None)
+            gname, _ = self.arm_for(arms, good)
+            x = self.fresh(gname if isinstance(gname, str) else "x")
+            good_body = run_arm(good, CmdV(t[1], x))
+            bad_body = run_arm(bad, None if t[0] == "opt" else CmdV(t[2]))
+            return self.match2(v.term, "Some %s" % x, good_body, "None", bad_body)
+        return self.ex(e[1], env, k_s, ctx, hint)
+
+    def call(self, e, env, k, ctx, expect):
+        if e[1][0] != "path":
+            raise Rs2vError("call of a computed function")
+        p = "::".join(e[1][1])
+        if p in ("Some", "Ok", "Err"):
+            if len(e[2]) != 1:
+                raise Rs2vError("%s with %d arguments" % (p, len(e[2])))
+            inner = None
+            if isinstance(expect, tuple) and expect[0] in ("opt", "res", "wrap"):
+                inner = expect[2] if (p == "Err" and expect[0] == "res") else expect[1]
+
+            def k_ctor(v):
+                if p == "Some":
+                    return k(CmdV(("opt", v.ty), None if v.term is None else "(Some %s)" % v.term, known=("Some", v)))
+                other = expect[2 if p == "Ok" else 1] if isinstance(expect, tuple) and expect[0] == "res" else None
+                return k(CmdV(("res", v.ty, other) if p == "Ok" else ("res", other, v.ty), None, known=(p, v)))
+            return self.ex(e[2][0], env, k_ctor, ctx, inner)
+        if p in self.cfg["helpers"]:
+            params, ret_text, body = self.cfg["helpers"][p]
+            if len(params) != len(e[2]):
+                raise Rs2vError("call of %s with %d arguments" % (p, len(e[2])))
+            ret = self.ty_of_text(ret_text)
+
+            def k_args(vs):
+                henv = {"%decl": {}, "%frame": 0}
+                for (pn, _pt), v in zip(params, vs):
+                    henv[pn] = v
+                hctx = {"ret": k, "ret_type": ret}
+                return self.block(body, henv, k, hctx, ret)
+            return self.seq(e[2], env, k_args, ctx)
+        h = self.cfg["ctors"].get(p) or self.cfg["paths"].get(p)
+        if h is None:
+            raise Rs2vError("call of %s" % p)
+        return self.seq(e[2], env, lambda vs: k(h(self, vs, expect)), ctx)
+
+    IDENT = ("clone", "to_owned", "as_str", "as_ref", "borrow")
+
+    def mcall(self, e, env, k, ctx, expect):
+        recv, name, args = e[1], e[2], e[3]
+        tf = e[4] if len(e) > 4 else None
+        rexp = None
+        if name == "unwrap" and expect is not None:
+            rexp = ("wrap", expect)
+
+        def k_r(r):
+            tag = r.ty[0] if isinstance(r.ty, tuple) else r.ty
+            if name in self.IDENT and not args and tag in ("str", "msg"):
+                return k(r)
+            if name == "unwrap" and tag in ("opt", "res") and not args:
+                if r.known is not None:
+                    if r.known[0] in ("Some", "Ok"):
+                        return k(r.known[1])
+                    return self.panic()
+                x = self.fresh("u")
+                return self.match2(r.term, "None", self.panic(), "Some %s" % x, k(CmdV(r.ty[1], x)))
+            if name in ("map", "filter") and tag in ("iter", "range") and len(args) == 1 and args[0][0] == "closure":
+                return k(self.map_closure(r, args[0], env, ctx, name))
+            if name == "map" and tag == "opt" and len(args) == 1 and args[0][0] == "closure":
+                return k(self.opt_map(r, args[0], env, ctx))
+            h = self.cfg["methods"].get((tag, name))
+            if h is None:
+                raise Rs2vError("method %s on a value of type %r" % (name, r.ty))
+            return self.seq(args, env, lambda vs: k(h(self, r, vs, tf, expect)), ctx)
+        return self.ex(recv, env, k_r, ctx, rexp)
+
+    def as_iter(self, r):
+        if r.ty[0] == "range":
+            f = self.cfg["range"].get(r.ty[1])
+            if f is None:
+                raise Rs2vError("range over %r" % (r.ty[1],))
+            return CmdV(("iter", r.ty[1]), f % (r.items[0].term, r.items[1].term))
+        return r
+
+    def closure_body(self, clo, ty, env, ctx):
+        """(binder, value of the body) of a one-parameter closure applied to an item of type ty; the body must be a plain value"""
+        names, body = clo[1], clo[2]
+        if len(names) != 1:
+            raise Rs2vError("closure of %d parameters" % len(names))
+        x = self.fresh(names[0])
+        env2 = self.enter(env)
+        self.declare(env2, names[0], CmdV(ty, x))
+        v = self.pure(body, env2, ctx)
+        if v.term is None:
+            raise Rs2vError("closure whose value has no term")
+        return x, v
+
+    def map_closure(self, r, clo, env, ctx, what="map"):
+        """ITER.map(|x| E) / ITER.filter(|x| E)"""
+        r = self.as_iter(r)
+        x, v = self.closure_body(clo, r.ty[1], env, ctx)
+        fun = "(fun %s : %s => %s)" % (x, self.cfg["coq_type"](r.ty[1]), v.term)
+        if what == "filter":
+            if v.ty != "bool":
+                raise Rs2vError("filter with a closure of type %r" % (v.ty,))
+            return CmdV(("iter", r.ty[1]), "(filter %s %s)" % (fun, r.term))
+        return CmdV(("iter", v.ty), "(map %s %s)" % (fun, r.term))
+
+    def opt_map(self, r, clo, env, ctx):
+        """OPTION.map(|x| E)"""
+        if r.known is not None:
+            if r.known[0] == "None":
+                return r
+            names, body = clo[1], clo[2]
+            if len(names) != 1:
+                raise Rs2vError("closure of %d parameters" % len(names))
+            env2 = self.enter(env)
+            self.declare(env2, names[0], r.known[1])
+            v = self.pure(body, env2, ctx)
+            return CmdV(("opt", v.ty), None if v.term is None else "(Some %s)" % v.term, known=("Some", v))
+        x, v = self.closure_body(clo, r.ty[1], env, ctx)
+        return CmdV(("opt", v.ty), "(option_map (fun %s : %s => %s) %s)" % (x, self.cfg["coq_type"](r.ty[1]), v.term, r.term))
